@@ -1,13 +1,19 @@
 // conc.go: structural facts about the locking / channel discipline of the memory and file stores
-// (Ibx.Gen.Conc).  Every fact is recognised by code shape only; an unrecognised shape yields "unknown"
-// (String facts) or false (Bool facts).
+// (Ibx.Gen.Conc).  Every fact is recognised by code structure only (calls of exported / library names, operators,
+// literals, variable identity, path conditions, order in the inlined view of unexported helpers) and never by
+// the spelling of locals, unexported names, comments or messages; an unrecognised shape yields "unknown"
+// (String facts) or false (Bool facts), which no tie accepts.
 package main
 
 import (
+	"fmt"
 	"go/ast"
 	"go/token"
+	"os"
+	"path/filepath"
 	"sort"
 	"strconv"
+	"strings"
 )
 
 func init() { extractors = append(extractors, extractConc) }
@@ -178,730 +184,2313 @@ func ccCommBinds(cc *ast.CommClause, name string) bool {
 
 func extractConc() {
 	g := gen("Conc")
-	store := parse("pkg/storage/mem/store.go")
-	maxsize := parse("pkg/storage/mem/maxsize.go")
-	msg := parse("pkg/storage/mem/message.go")
-	fstore := parse("pkg/storage/file/fstore.go")
+	mem := ccNewMem(ccLoadPkg("pkg/storage/mem"))
+	file := ccLoadPkg("pkg/storage/file")
 	lock := parse("pkg/storage/lock.go")
 
-	g.def("memEnforcerCallSite", "String", leanStr(ccEnforcerCallSite(store)),
-		"mem store.go: are s.enforcerDeliver / s.enforcerRemove called inside a closure passed to s.withMailbox (\"insideLock\") or only outside (\"outsideLock\")")
+	g.def("memEnforcerCallSite", "String", leanStr(mem.callSite()),
+		"mem store: \"insideLock\" = some send on one of the two channels the size-enforcer goroutine selects on is reached (through unexported helpers) from inside a closure passed to the lock wrapper (the method that calls its func parameter on the mailbox it has just locked); \"outsideLock\" = none is, and AddMessage reaches the registering send, RemoveMessage the un-registering send and PurgeMessages the un-registering send in a loop, all outside such closures")
 
-	enf := fn(maxsize, "Store", "maxSizeEnforcer")
-	g.def("memEnforcerRemove", "String", leanStr(ccEnforcerRemove(enf)),
-		"maxSizeEnforcer, case <-s.remove: \"goneFlag\" = `if m.el == nil { m.gone = true } else all.Remove(m.el)`; \"unguarded\" = all.Remove(m.el) with no nil test")
-	g.def("memIncomingSkipsGone", "Bool", ccBool(ccIncomingSkipsGone(enf)),
-		"maxSizeEnforcer, case <-s.incoming: `if m.gone { close(md.done); continue }` precedes all.PushBack")
-	g.def("memEvictStopsOnEmpty", "Bool", ccBool(ccEvictStopsOnEmpty(enf)),
-		"maxSizeEnforcer, `for curSize > maxSize`: `el := all.Front(); if el == nil { break }` precedes all.Remove(el)")
+	variant, elField, goneField := mem.enforcerRemove()
+	g.def("memEnforcerRemove", "String", leanStr(variant),
+		"size enforcer, the select case that does not PushBack: \"goneFlag\" = every <list>.Remove(<msg>.<el>) of the received message is only reached when <msg>.<el> is known non-nil, where it is nil a bool field of the message is set to true, and the request's channel is closed unconditionally at the end; \"unguarded\" = Remove(<msg>.<el>) with no nil test of that field at all")
+	g.def("memIncomingSkipsGone", "Bool", ccBool(mem.incomingSkipsGone(elField, goneField)),
+		"size enforcer, the select case that calls PushBack: PushBack(<msg>) is only reached when the flag field set by the other case is false; when it is true the request's channel is closed and the loop continues; the element returned by PushBack is stored in the field the other case passes to Remove; the request's channel is closed after the registration")
+	g.def("memEvictStopsOnEmpty", "Bool", ccBool(mem.evictStopsOnEmpty()),
+		"size enforcer, registering case: every <list>.Remove(e) has e := <list>.Front() and sits in a loop whose condition is <running total> > <parameter of the goroutine>, reached only when e is known non-nil, the nil side leaving that loop with break")
 
-	add := fn(store, "Store", "AddMessage")
-	capEvict, deliverLast := ccCapEvict(add)
+	capEvict, deliverLast := mem.capEvict()
 	g.def("memCapEvict", "String", leanStr(capEvict),
-		"mem AddMessage cap loop: \"collectsAndNotifies\" = evicted messages are collected under the lock, then emitDeleted + enforcerRemove after it; \"silent\" = deleted from the map only")
-	g.def("memSeenAtomic", "Bool", ccBool(ccSeenAtomic(msg, store)),
-		"mem Message.seen is an atomic.Bool, written by Store(true) in MarkSeen and read by Load() in Seen")
-	g.def("memStoreLockReleasedBeforeBoxLock", "Bool", ccBool(ccWithMailbox(fn(store, "Store", "withMailbox"))),
-		"mem withMailbox: s.Unlock() precedes the mailbox lock, mailbox unlock is deferred, f(mb) is the last statement")
+		"mem AddMessage, inside the closure passed to the lock wrapper: one delete(<box>.<map>, key) in a loop whose condition has the conjunct len(<box>.<map>) > <recv>.<cap> (cap = the field initialised from MailboxMsgCap) with <recv>.<cap> > 0 known, key = strconv.Itoa(<box>.<first>) and <box>.<first>++ once per iteration; \"collectsAndNotifies\" = the deleted value is appended (under the same conditions as the delete) to a slice declared outside the closure, and after the wrapper call a range over that slice reaches AfterMessageDeleted.Emit of the element and the un-registering send carrying the element; \"silent\" = nothing is collected and AddMessage reaches neither an Emit nor an un-registering send")
+	g.def("memSeenAtomic", "Bool", ccBool(mem.seenAtomic()),
+		"mem Message has exactly one field of type atomic.Bool (sync/atomic); Message.Seen is `return <recv>.<that field>.Load()` and Store.MarkSeen reaches exactly one <x>.<that field>.Store(true)")
+	g.def("memStoreLockReleasedBeforeBoxLock", "Bool", ccBool(mem.withMailboxShape()),
+		"mem lock wrapper: exactly one unconditional <recv>.Lock() ... <recv>.Unlock() pair (no RLock, none deferred) with every access to a map of the store and every binding of the mailbox in between; then the mailbox's Lock() where the bool parameter is true / RLock() where it is false; the matching Unlock / RUnlock deferred under the same test; then the unconditional call of the func parameter on that mailbox")
 	g.def("memDeliverIsLast", "Bool", ccBool(deliverLast),
-		"mem AddMessage: s.enforcerDeliver(m) comes after the `range evicted` notification loop")
+		"mem AddMessage: exactly one registering send is reached, outside the closure, carrying the message that the closure stored into the map, after the range over the evicted messages")
+	g.def("memLockModes", "List String", strList(mem.lockModes()),
+		"mem: for every exported method of the store the literal bool arguments of the lock-wrapper calls it reaches (itself or through unexported helpers), in order: W = true (write lock), R = false (read lock), ? = not a literal")
 
-	visit := fn(fstore, "Store", "VisitMailboxes")
-	g.def("fileVisitENOENT", "String", leanStr(ccVisitENOENT(fstore, visit)),
-		"file VisitMailboxes: level-1 and level-2 readDirNames errors satisfying os.IsNotExist are skipped with continue (\"tolerated\") or returned (\"fatal\")")
-	ops, all := ccFileLockedOps(fstore)
+	visit := file.method("Store", "VisitMailboxes")
+	g.def("fileVisitENOENT", "String", leanStr(ccVisitENOENT(file, visit)),
+		"file VisitMailboxes: three directory listings (calls of a helper that calls Readdirnames) at range-nesting depth 0, 1, 2; depth 0 returns the error; at depth 1 and 2 a failed listing (err != nil) `continue`s where os.IsNotExist(err) / errors.Is(err, ErrNotExist) is known true and returns err where it is known false (\"tolerated\"), or returns err without such a test (\"fatal\")")
+	ops, modes, all := ccFileLockedOps(file)
 	g.def("fileOpsHoldBucketLock", "Bool", ccBool(all),
-		"every exported method of file.Store except VisitMailboxes starts with mb := fs.mbox(..); mb.(R)Lock(); defer mb.(R)Unlock()")
+		"every exported method of file.Store except VisitMailboxes: builds the mailbox by a store method, takes its Lock / RLock unconditionally before anything else mentions the mailbox or the store, registers the matching deferred Unlock / RUnlock immediately, and never locks, unlocks or rebinds it again")
 	g.def("fileLockedOps", "List String", strList(ops),
-		"exported methods of file.Store that hold the bucket lock for their whole body (sorted)")
-	g.def("fileVisitReadsLocked", "Bool", ccBool(ccVisitReadsLocked(visit)),
-		"file VisitMailboxes innermost loop: mb.RLock(); msgs, err := mb.getMessages(); mb.RUnlock()")
-	g.def("fileBucketIsLevel1Dir", "Bool", ccBool(ccBucketIsLevel1(lock, fstore)),
-		"HashLock.Get indexes by hash[0:3] and file.Store.mbox uses hash[0:3] as the level-1 directory: one lock bucket = one level-1 directory")
+		"exported methods of file.Store that hold the bucket lock for their whole body in that sense (sorted)")
+	g.def("fileLockModes", "List String", strList(modes),
+		"the same methods with the lock they hold: W = Lock, R = RLock")
+	g.def("fileVisitReadsLocked", "Bool", ccBool(ccVisitReadsLocked(file, visit)),
+		"file VisitMailboxes, innermost loop: the mailbox built by a store method is (R)Lock()ed and (R)Unlock()ed in the same block, not deferred; every method call on the mailbox lies between the two; the callback parameter is called outside them")
+	g.def("fileBucketIsLevel1Dir", "Bool", ccBool(ccBucketIsLevel1(lock, file)),
+		"HashLock is an array of 4096 locks and Get(h) returns &<recv>[i] with i from strconv.ParseInt(h[0:3], 16, ..); every file-store function that asks the HashLock field for Get(h) builds the mailbox path as filepath.Join(<recv>.<root>, h[0:3], .., h) from the same never-reassigned h and returns it inside the mailbox: one lock bucket = one level-1 directory")
 }
 
-// fact 1
-func ccEnforcerCallSite(store *ast.File) string {
-	if store == nil {
-		return "unknown"
+// ---------------------------------------------------------------------------------------------------
+// STRUCTURAL MACHINERY.  Nothing below looks at the spelling of a local variable, parameter, receiver,
+// unexported function / method / type / field, comment or message.  Things are identified by
+//   * exported / standard-library names (PushBack, Front, Remove, Lock, RLock, Unlock, RUnlock, Emit,
+//     AfterMessageDeleted, MailboxMsgCap, atomic.Bool, Store, Load, os.IsNotExist, filepath.Join,
+//     strconv.ParseInt, strconv.Itoa, Readdirnames, AddMessage, RemoveMessage, ...), builtins, operators, literals,
+//   * identity of variables (ast.Ident.Obj) followed through `x := y.f` aliases and through the parameters of
+//     same-package unexported helpers, which are walked as if inlined (3 levels),
+//   * path conditions: the tests that are known true / false where a statement executes, whether they come from
+//     if / else, switch cases, guard clauses (`if c { return/continue/break }` earlier in a block) or a loop condition.
+
+// ccPkg: all non-test files of one package directory.
+type ccPkg struct {
+	files   []*ast.File
+	funcs   map[string][]*ast.FuncDecl // plain functions by name
+	methods map[string][]*ast.FuncDecl // methods by name
+	imports map[string]string          // local import name -> path
+	all     []*ast.FuncDecl
+}
+
+func ccLoadPkg(dir string) *ccPkg {
+	p := &ccPkg{funcs: map[string][]*ast.FuncDecl{}, methods: map[string][]*ast.FuncDecl{}, imports: map[string]string{}}
+	ents, err := os.ReadDir(filepath.Join(repo, dir))
+	if err != nil {
+		return p
 	}
-	var lits []*ast.FuncLit
-	for _, wm := range ccCalls(store, "s.withMailbox") {
-		for _, a := range wm.Args {
-			if fl, ok := a.(*ast.FuncLit); ok {
-				lits = append(lits, fl)
+	var names []string
+	for _, e := range ents {
+		n := e.Name()
+		if e.IsDir() || !strings.HasSuffix(n, ".go") || strings.HasSuffix(n, "_test.go") {
+			continue
+		}
+		names = append(names, n)
+	}
+	sort.Strings(names)
+	for _, n := range names {
+		f := parse(filepath.Join(dir, n))
+		if f == nil {
+			continue
+		}
+		p.files = append(p.files, f)
+		for _, im := range f.Imports {
+			path, err := strconv.Unquote(im.Path.Value)
+			if err != nil {
+				continue
+			}
+			name := path[strings.LastIndex(path, "/")+1:]
+			if im.Name != nil {
+				name = im.Name.Name
+			}
+			p.imports[name] = path
+		}
+		for _, d := range f.Decls {
+			fd, ok := d.(*ast.FuncDecl)
+			if !ok {
+				continue
+			}
+			p.all = append(p.all, fd)
+			if fd.Recv == nil {
+				p.funcs[fd.Name.Name] = append(p.funcs[fd.Name.Name], fd)
+			} else {
+				p.methods[fd.Name.Name] = append(p.methods[fd.Name.Name], fd)
 			}
 		}
 	}
-	deliver := ccCalls(store, "s.enforcerDeliver")
-	remove := ccCalls(store, "s.enforcerRemove")
-	if len(deliver) == 0 && len(remove) == 0 {
-		return "unknown"
-	}
-	for _, c := range append(append([]*ast.CallExpr{}, deliver...), remove...) {
-		for _, fl := range lits {
-			if ccWithin(c, fl) {
-				return "insideLock"
-			}
-		}
-	}
-	if len(deliver) == 0 || len(remove) == 0 || len(lits) == 0 {
-		return "unknown"
-	}
-	return "outsideLock"
+	return p
 }
 
-// fact 2
-func ccEnforcerRemove(enf *ast.FuncDecl) string {
-	if ccRecvName(enf) != "s" {
-		return "unknown"
+func ccRecvType(fd *ast.FuncDecl) string {
+	if fd == nil || fd.Recv == nil || len(fd.Recv.List) != 1 {
+		return ""
 	}
-	cc := ccRecvCase(enf, "s.remove")
-	if cc == nil || !ccCommBinds(cc, "md") {
-		return "unknown"
+	t := fd.Recv.List[0].Type
+	if s, ok := t.(*ast.StarExpr); ok {
+		t = s.X
 	}
-	// m must be the received message
-	iM := ccIndex(cc.Body, func(s ast.Stmt) bool { return ccIsAssign(s, "m := md.msg") })
-	if iM < 0 {
-		return "unknown"
+	if id, ok := t.(*ast.Ident); ok {
+		return id.Name
 	}
-	body := &ast.BlockStmt{List: cc.Body}
-	removes := ccCallsSrc(body, "all.Remove(m.el)")
-	if len(removes) == 0 {
-		return "unknown"
+	return ""
+}
+
+func ccRecvObj(fd *ast.FuncDecl) *ast.Object {
+	if fd == nil || fd.Recv == nil || len(fd.Recv.List) != 1 || len(fd.Recv.List[0].Names) != 1 {
+		return nil
 	}
-	for _, r := range removes {
-		if !(cc.Body[iM].End() <= r.Pos()) {
-			return "unknown"
+	return fd.Recv.List[0].Names[0].Obj
+}
+
+// method: the method `name` of type `typ` (exported names only are looked up this way).
+func (p *ccPkg) method(typ, name string) *ast.FuncDecl {
+	var res *ast.FuncDecl
+	for _, fd := range p.methods[name] {
+		if ccRecvType(fd) == typ && fd.Body != nil {
+			if res != nil {
+				return nil
+			}
+			res = fd
 		}
 	}
-	// every `if` of the case that tests m.el against nil
-	var tests []*ast.IfStmt
-	ast.Inspect(body, func(x ast.Node) bool {
-		is, ok := x.(*ast.IfStmt)
+	return res
+}
+
+func ccStrip(e ast.Expr) ast.Expr {
+	for {
+		pe, ok := e.(*ast.ParenExpr)
 		if !ok {
-			return true
+			return e
 		}
-		found := false
-		ast.Inspect(is.Cond, func(y ast.Node) bool {
-			if be, ok := y.(*ast.BinaryExpr); ok {
-				if t := src(be); t == "m.el == nil" || t == "m.el != nil" || t == "nil == m.el" || t == "nil != m.el" {
-					found = true
+		e = pe.X
+	}
+}
+
+// ccUniverse: e is the predeclared identifier `name` (not shadowed).
+func ccUniverse(e ast.Expr, name string) bool {
+	id, ok := ccStrip(e).(*ast.Ident)
+	return ok && id.Name == name && id.Obj == nil
+}
+
+func ccIsVar(e ast.Expr, o *ast.Object) bool {
+	id, ok := ccStrip(e).(*ast.Ident)
+	return ok && o != nil && id.Obj == o
+}
+
+func ccObjOf(e ast.Expr) *ast.Object {
+	if id, ok := ccStrip(e).(*ast.Ident); ok {
+		return id.Obj
+	}
+	return nil
+}
+
+// ccMethodCall: ce is `<x>.<name>(...)`; returns x.
+func ccMethodCall(ce *ast.CallExpr, name string) (ast.Expr, bool) {
+	se, ok := ccStrip(ce.Fun).(*ast.SelectorExpr)
+	if !ok || se.Sel.Name != name {
+		return nil, false
+	}
+	return se.X, true
+}
+
+// pkgCall: ce is `<pkg>.<name>(...)` where <pkg> is the local name of import path `path`.
+func (p *ccPkg) pkgCall(ce *ast.CallExpr, path, name string) bool {
+	x, ok := ccMethodCall(ce, name)
+	if !ok {
+		return false
+	}
+	id, ok := x.(*ast.Ident)
+	return ok && id.Obj == nil && p.imports[id.Name] == path
+}
+
+// callee: the same-package function or method a call refers to (nil when not determinable).
+func (p *ccPkg) callee(ce *ast.CallExpr, cur *ast.FuncDecl) *ast.FuncDecl {
+	switch f := ccStrip(ce.Fun).(type) {
+	case *ast.Ident:
+		if f.Obj != nil && f.Obj.Kind != ast.Fun {
+			return nil
+		}
+		if l := p.funcs[f.Name]; len(l) == 1 {
+			return l[0]
+		}
+	case *ast.SelectorExpr:
+		if id, ok := f.X.(*ast.Ident); ok && id.Obj == nil {
+			if _, imp := p.imports[id.Name]; imp {
+				return nil
+			}
+		}
+		l := p.methods[f.Sel.Name]
+		if len(l) == 1 {
+			return l[0]
+		}
+		if len(l) > 1 && cur != nil && ccIsVar(f.X, ccRecvObj(cur)) {
+			var res *ast.FuncDecl
+			for _, fd := range l {
+				if ccRecvType(fd) == ccRecvType(cur) {
+					if res != nil {
+						return nil
+					}
+					res = fd
 				}
 			}
+			return res
+		}
+	}
+	return nil
+}
+
+// ccCond: one test known to have value `val` at a program point.
+type ccCond struct {
+	e           ast.Expr
+	val         bool
+	loop        *ast.ForStmt // non-nil: e is (a conjunct of) the condition of this loop
+	other       string       // how the complementary side ends: break / continue / return / panic / fall / "" (unknown)
+	otherBody   []ast.Stmt   // the statements of the complementary side
+	otherTarget ast.Node     // innermost for / range / switch / select around the test (what a break there leaves)
+}
+
+// ccCtx: where a node sits in the inlined view of a function.
+type ccCtx struct {
+	parent   *ccCtx
+	fn       *ast.FuncDecl
+	bind     map[*ast.Object]ast.Expr // parameter / receiver of fn -> argument expression (to be read in parent)
+	key      []token.Pos              // positions of the calls through which fn was entered
+	conds    []ccCond
+	encl     []ast.Node // enclosing compound statements and function literals (inlined view)
+	lits     []*ast.FuncLit
+	deferred bool
+	inGo     bool
+	brk      ast.Node
+	loopT    ast.Node // innermost loop (target of continue)
+	depth    int
+}
+
+type ccSite struct {
+	n   ast.Node
+	c   *ccCtx
+	key []token.Pos
+}
+
+func ccKeyLess(a, b []token.Pos) bool {
+	for i := 0; i < len(a) && i < len(b); i++ {
+		if a[i] != b[i] {
+			return a[i] < b[i]
+		}
+	}
+	return len(a) < len(b)
+}
+
+func (c *ccCtx) hasEncl(n ast.Node) bool {
+	for _, e := range c.encl {
+		if e == n {
 			return true
-		})
-		if found {
-			tests = append(tests, is)
-		}
-		return true
-	})
-	if len(tests) == 0 {
-		return "unguarded"
-	}
-	if len(tests) != 1 {
-		return "unknown"
-	}
-	is := tests[0]
-	if is.Init != nil || src(is.Cond) != "m.el == nil" || is.Else == nil {
-		return "unknown"
-	}
-	// the test is a top-level statement of the case, after m := md.msg
-	iIf := ccIndex(cc.Body, func(s ast.Stmt) bool { return s == ast.Stmt(is) })
-	if iIf < iM {
-		return "unknown"
-	}
-	if ccIndex(is.Body.List, func(s ast.Stmt) bool { return ccIsAssign(s, "m.gone = true") }) < 0 {
-		return "unknown"
-	}
-	for _, r := range removes {
-		if !ccWithin(r, is.Else) {
-			return "unknown"
 		}
 	}
-	return "goneFlag"
+	return false
 }
 
-// fact 3
-func ccIncomingSkipsGone(enf *ast.FuncDecl) bool {
-	if ccRecvName(enf) != "s" {
-		return false
+func (c *ccCtx) inLit(fl *ast.FuncLit) bool {
+	for _, l := range c.lits {
+		if l == fl {
+			return true
+		}
 	}
-	cc := ccRecvCase(enf, "s.incoming")
-	if cc == nil || !ccCommBinds(cc, "md") {
-		return false
-	}
-	iM := ccIndex(cc.Body, func(s ast.Stmt) bool { return ccIsAssign(s, "m := md.msg") })
-	iPush := ccIndex(cc.Body, func(s ast.Stmt) bool { return len(ccCalls(s, "all.PushBack")) > 0 })
-	iIf := ccIndex(cc.Body, func(s ast.Stmt) bool { return ccPlainIf(s, "m.gone") != nil })
-	if iM < 0 || iPush < 0 || iIf < 0 || !(iM < iIf && iIf < iPush) {
-		return false
-	}
-	is := ccPlainIf(cc.Body[iIf], "m.gone")
-	if is.Else != nil || len(is.Body.List) != 2 {
-		return false
-	}
-	return ccIsExprStmt(is.Body.List[0], "close(md.done)") && ccIsBranch(is.Body.List[1], token.CONTINUE)
+	return false
 }
 
-// fact 4
-func ccEvictStopsOnEmpty(enf *ast.FuncDecl) bool {
-	if enf == nil || enf.Body == nil {
-		return false
-	}
-	var loops []*ast.ForStmt
-	ast.Inspect(enf.Body, func(x ast.Node) bool {
-		if fs, ok := x.(*ast.ForStmt); ok && fs.Cond != nil && src(fs.Cond) == "curSize > maxSize" {
-			loops = append(loops, fs)
+func (c *ccCtx) loops() int {
+	n := 0
+	for _, e := range c.encl {
+		switch e.(type) {
+		case *ast.ForStmt, *ast.RangeStmt:
+			n++
 		}
-		return true
-	})
-	if len(loops) != 1 || loops[0].Init != nil || loops[0].Post != nil {
-		return false
 	}
-	l := loops[0].Body.List
-	iFront := ccIndex(l, func(s ast.Stmt) bool { return ccIsAssign(s, "el := all.Front()") })
-	if iFront < 0 || iFront+1 >= len(l) {
-		return false
+	return n
+}
+
+// ccTerm: how a statement list ends.
+func ccTerm(l []ast.Stmt) string {
+	if len(l) == 0 {
+		return "fall"
 	}
-	is := ccPlainIf(l[iFront+1], "el == nil")
-	if is == nil || is.Else != nil || len(is.Body.List) != 1 || !ccIsBranch(is.Body.List[0], token.BREAK) {
-		return false
+	switch s := l[len(l)-1].(type) {
+	case *ast.ReturnStmt:
+		return "return"
+	case *ast.BranchStmt:
+		if s.Label != nil {
+			return "labelled"
+		}
+		switch s.Tok {
+		case token.BREAK:
+			return "break"
+		case token.CONTINUE:
+			return "continue"
+		}
+		return "goto"
+	case *ast.ExprStmt:
+		if ce, ok := s.X.(*ast.CallExpr); ok && ccUniverse(ce.Fun, "panic") {
+			return "panic"
+		}
+	case *ast.BlockStmt:
+		return ccTerm(s.List)
+	case *ast.IfStmt:
+		if s.Else == nil {
+			return "fall"
+		}
+		a, b := ccTerm(s.Body.List), ccTerm(ccElseList(s.Else))
+		if a == "fall" || b == "fall" {
+			return "fall"
+		}
+		if a == b {
+			return a
+		}
+		return "mixed"
 	}
-	// all.Remove(el): at least one, every all.Remove of the loop is after the test, el not reassigned in between
-	removes := ccCalls(loops[0].Body, "all.Remove")
-	if len(removes) == 0 {
-		return false
+	return "fall"
+}
+
+func ccElseList(s ast.Stmt) []ast.Stmt {
+	switch e := s.(type) {
+	case nil:
+		return nil
+	case *ast.BlockStmt:
+		return e.List
 	}
-	for _, r := range removes {
-		if src(r) != "all.Remove(el)" || !(is.End() <= r.Pos()) {
+	return []ast.Stmt{s}
+}
+
+// ccSplit: the atomic tests implied by `e == val` (conjunctions when true, disjunctions when false, negations).
+func ccSplit(e ast.Expr, val bool, proto ccCond) []ccCond {
+	e = ccStrip(e)
+	switch x := e.(type) {
+	case *ast.UnaryExpr:
+		if x.Op == token.NOT {
+			return ccSplit(x.X, !val, proto)
+		}
+	case *ast.BinaryExpr:
+		if (x.Op == token.LAND && val) || (x.Op == token.LOR && !val) {
+			return append(ccSplit(x.X, val, proto), ccSplit(x.Y, val, proto)...)
+		}
+	}
+	proto.e, proto.val = e, val
+	return []ccCond{proto}
+}
+
+func ccAddConds(old []ccCond, add []ccCond) []ccCond {
+	res := make([]ccCond, 0, len(old)+len(add))
+	res = append(res, old...)
+	return append(res, add...)
+}
+
+type ccWalker struct {
+	p        *ccPkg
+	maxDepth int
+	exported bool // also walk into exported same-package functions (reachability questions)
+	sites    []ccSite
+	active   map[*ast.FuncDecl]bool
+}
+
+func (c ccCtx) enter(n ast.Node) ccCtx {
+	e := make([]ast.Node, 0, len(c.encl)+1)
+	e = append(e, c.encl...)
+	c.encl = append(e, n)
+	return c
+}
+
+func (w *ccWalker) block(l []ast.Stmt, c ccCtx) {
+	for _, s := range l {
+		w.stmt(s, c)
+		if is, ok := s.(*ast.IfStmt); ok {
+			thenT, elseT := ccTerm(is.Body.List), ccTerm(ccElseList(is.Else))
+			switch {
+			case thenT != "fall" && elseT == "fall":
+				c.conds = ccAddConds(c.conds, ccSplit(is.Cond, false, ccCond{other: thenT, otherBody: is.Body.List, otherTarget: c.brk}))
+			case thenT == "fall" && elseT != "fall" && is.Else != nil:
+				c.conds = ccAddConds(c.conds, ccSplit(is.Cond, true, ccCond{other: elseT, otherBody: ccElseList(is.Else), otherTarget: c.brk}))
+			}
+		}
+	}
+}
+
+func (w *ccWalker) stmt(s ast.Stmt, c ccCtx) {
+	switch s := s.(type) {
+	case nil:
+	case *ast.BlockStmt:
+		w.block(s.List, c)
+	case *ast.LabeledStmt:
+		w.stmt(s.Stmt, c)
+	case *ast.IfStmt:
+		w.compound(s, c)
+		if s.Init != nil {
+			w.leaf(s.Init, c)
+		}
+		w.leaf(s.Cond, c)
+		thenT, elseT := ccTerm(s.Body.List), ccTerm(ccElseList(s.Else))
+		ct := c.enter(s)
+		ct.conds = ccAddConds(c.conds, ccSplit(s.Cond, true, ccCond{other: elseT, otherBody: ccElseList(s.Else), otherTarget: c.brk}))
+		w.block(s.Body.List, ct)
+		if s.Else != nil {
+			ce := c.enter(s)
+			ce.conds = ccAddConds(c.conds, ccSplit(s.Cond, false, ccCond{other: thenT, otherBody: s.Body.List, otherTarget: c.brk}))
+			w.stmt(s.Else, ce)
+		}
+	case *ast.SwitchStmt:
+		w.compound(s, c)
+		if s.Init != nil {
+			w.leaf(s.Init, c)
+		}
+		if s.Tag != nil {
+			w.leaf(s.Tag, c)
+		}
+		caseExpr := func(e ast.Expr) ast.Expr {
+			if s.Tag == nil {
+				return e
+			}
+			return &ast.BinaryExpr{X: s.Tag, OpPos: e.Pos(), Op: token.EQL, Y: e}
+		}
+		var prev []ccCond
+		var def *ast.CaseClause
+		for _, cs := range s.Body.List {
+			cl, ok := cs.(*ast.CaseClause)
+			if !ok {
+				continue
+			}
+			if cl.List == nil {
+				def = cl
+				continue
+			}
+			cx := c.enter(s)
+			cx.brk = s
+			cx.conds = ccAddConds(c.conds, prev)
+			for _, e := range cl.List {
+				w.leaf(e, cx)
+			}
+			if len(cl.List) == 1 {
+				cx.conds = ccAddConds(cx.conds, ccSplit(caseExpr(cl.List[0]), true, ccCond{}))
+			}
+			w.block(cl.Body, cx)
+			for _, e := range cl.List {
+				prev = ccAddConds(prev, ccSplit(caseExpr(e), false, ccCond{}))
+			}
+		}
+		if def != nil {
+			cx := c.enter(s)
+			cx.brk = s
+			cx.conds = ccAddConds(c.conds, prev)
+			w.block(def.Body, cx)
+		}
+	case *ast.TypeSwitchStmt:
+		w.compound(s, c)
+		if s.Init != nil {
+			w.leaf(s.Init, c)
+		}
+		w.leaf(s.Assign, c)
+		for _, cs := range s.Body.List {
+			if cl, ok := cs.(*ast.CaseClause); ok {
+				cx := c.enter(s)
+				cx.brk = s
+				w.block(cl.Body, cx)
+			}
+		}
+	case *ast.SelectStmt:
+		w.compound(s, c)
+		for _, cs := range s.Body.List {
+			if cl, ok := cs.(*ast.CommClause); ok {
+				cx := c.enter(s)
+				cx.brk = s
+				if cl.Comm != nil {
+					w.leaf(cl.Comm, cx)
+				}
+				w.block(cl.Body, cx)
+			}
+		}
+	case *ast.ForStmt:
+		w.compound(s, c)
+		if s.Init != nil {
+			w.leaf(s.Init, c)
+		}
+		cx := c.enter(s)
+		cx.brk, cx.loopT = s, s
+		if s.Cond != nil {
+			w.leaf(s.Cond, cx)
+			cx.conds = ccAddConds(c.conds, ccSplit(s.Cond, true, ccCond{loop: s}))
+		}
+		w.block(s.Body.List, cx)
+		if s.Post != nil {
+			w.leaf(s.Post, cx)
+		}
+	case *ast.RangeStmt:
+		w.compound(s, c)
+		w.leaf(s.X, c)
+		cx := c.enter(s)
+		cx.brk, cx.loopT = s, s
+		w.block(s.Body.List, cx)
+	case *ast.DeferStmt:
+		c.deferred = true
+		w.leaf(s, c)
+	case *ast.GoStmt:
+		c.inGo = true
+		w.leaf(s, c)
+	default:
+		w.leaf(s, c)
+	}
+}
+
+func (w *ccWalker) record(n ast.Node, c *ccCtx) {
+	k := make([]token.Pos, 0, len(c.key)+1)
+	k = append(k, c.key...)
+	w.sites = append(w.sites, ccSite{n: n, c: c, key: append(k, n.Pos())})
+}
+
+// compound: a site for the compound statement itself (its parts are visited separately).
+func (w *ccWalker) compound(s ast.Stmt, c ccCtx) {
+	cc := c
+	w.record(s, &cc)
+}
+
+// leaf: a simple statement or a header expression.  Every sub-node outside function literals becomes a site;
+// function literals are walked as nested bodies; calls of same-package unexported helpers are walked inline.
+func (w *ccWalker) leaf(n ast.Node, c ccCtx) {
+	cc := c
+	var lits []*ast.FuncLit
+	var calls []*ast.CallExpr
+	ast.Inspect(n, func(x ast.Node) bool {
+		if x == nil {
+			return true
+		}
+		if fl, ok := x.(*ast.FuncLit); ok {
+			lits = append(lits, fl)
+			w.record(fl, &cc)
 			return false
 		}
+		w.record(x, &cc)
+		if ce, ok := x.(*ast.CallExpr); ok {
+			calls = append(calls, ce)
+		}
+		return true
+	})
+	for _, fl := range lits {
+		cx := c.enter(fl)
+		cx.lits = append(append([]*ast.FuncLit{}, c.lits...), fl)
+		cx.brk, cx.loopT = nil, nil
+		w.block(fl.Body.List, cx)
 	}
-	iRem := ccIndex(l, func(s ast.Stmt) bool { return len(ccCallsSrc(s, "all.Remove(el)")) > 0 })
-	for _, s := range l[iFront+2 : iRem] {
-		bad := false
-		ast.Inspect(s, func(x ast.Node) bool {
-			if as, ok := x.(*ast.AssignStmt); ok {
-				for _, lhs := range as.Lhs {
-					if src(lhs) == "el" {
-						bad = true
+	if c.depth >= w.maxDepth {
+		return
+	}
+	for _, ce := range calls {
+		fd := w.p.callee(ce, c.fn)
+		if fd == nil || fd.Body == nil || (ast.IsExported(fd.Name.Name) && !w.exported) || w.active[fd] {
+			continue
+		}
+		cx := c
+		cx.parent = &cc
+		cx.fn = fd
+		cx.bind = map[*ast.Object]ast.Expr{}
+		if ro := ccRecvObj(fd); ro != nil {
+			if se, ok := ccStrip(ce.Fun).(*ast.SelectorExpr); ok {
+				cx.bind[ro] = se.X
+			}
+		}
+		i := 0
+		if fd.Type.Params != nil {
+			for _, f := range fd.Type.Params.List {
+				for _, nm := range f.Names {
+					if _, variadic := f.Type.(*ast.Ellipsis); !variadic && i < len(ce.Args) && nm.Obj != nil {
+						cx.bind[nm.Obj] = ce.Args[i]
 					}
+					i++
 				}
 			}
-			return true
-		})
-		if bad {
+		}
+		cx.key = append(append([]token.Pos{}, c.key...), ce.Pos())
+		cx.depth = c.depth + 1
+		cx.brk, cx.loopT = nil, nil
+		w.active[fd] = true
+		w.block(fd.Body.List, cx)
+		delete(w.active, fd)
+	}
+}
+
+// ccScan: the sites of the statement list l of fd in source order of the inlined view.
+func ccScan(p *ccPkg, fd *ast.FuncDecl, l []ast.Stmt, maxDepth int) []ccSite {
+	w := &ccWalker{p: p, maxDepth: maxDepth, active: map[*ast.FuncDecl]bool{fd: true}}
+	w.block(l, ccCtx{fn: fd})
+	return w.sites
+}
+
+// ccScanAll: like ccScan, but exported same-package functions are walked inline as well.
+func ccScanAll(p *ccPkg, fd *ast.FuncDecl, l []ast.Stmt, maxDepth int) []ccSite {
+	w := &ccWalker{p: p, maxDepth: maxDepth, exported: true, active: map[*ast.FuncDecl]bool{fd: true}}
+	w.block(l, ccCtx{fn: fd})
+	return w.sites
+}
+
+// ccDefRhs: for a local defined once by `x := <selector chain>` (or `x, y := a.f, b.g`) the right-hand side.
+func ccDefRhs(o *ast.Object) ast.Expr {
+	if o == nil {
+		return nil
+	}
+	as, ok := o.Decl.(*ast.AssignStmt)
+	if !ok || as.Tok != token.DEFINE || len(as.Lhs) != len(as.Rhs) {
+		return nil
+	}
+	for i, l := range as.Lhs {
+		if ccIsVar(l, o) {
+			return as.Rhs[i]
+		}
+	}
+	return nil
+}
+
+func ccPure(e ast.Expr) bool {
+	switch x := ccStrip(e).(type) {
+	case *ast.Ident:
+		return true
+	case *ast.SelectorExpr:
+		return ccPure(x.X)
+	}
+	return false
+}
+
+// ccCanon: a spelling-independent key of a variable / field path: "#<object>.field.field".  Locals that are
+// aliases of a path and parameters of inlined helpers are replaced by what they stand for.
+func ccCanon(e ast.Expr, c *ccCtx) string {
+	return ccCanonN(e, c, 0)
+}
+
+func ccCanonN(e ast.Expr, c *ccCtx, n int) string {
+	if n > 12 || e == nil {
+		return "?"
+	}
+	switch x := ccStrip(e).(type) {
+	case *ast.Ident:
+		if x.Obj == nil {
+			return "$" + x.Name
+		}
+		if c != nil && c.bind != nil {
+			if b, ok := c.bind[x.Obj]; ok {
+				return ccCanonN(b, c.parent, n+1)
+			}
+		}
+		if r := ccDefRhs(x.Obj); r != nil && ccPure(r) {
+			return ccCanonN(r, c, n+1)
+		}
+		return fmt.Sprintf("#%p", x.Obj)
+	case *ast.SelectorExpr:
+		return ccCanonN(x.X, c, n+1) + "." + x.Sel.Name
+	case *ast.StarExpr:
+		return ccCanonN(x.X, c, n+1)
+	}
+	return fmt.Sprintf("?%d", e.Pos())
+}
+
+func ccObjKey(o *ast.Object) string { return fmt.Sprintf("#%p", o) }
+
+// ccField: canon is "#<object>.<name>" -> name.
+func ccField(canon string) string {
+	if !strings.HasPrefix(canon, "#") || strings.Count(canon, ".") != 1 {
+		return ""
+	}
+	return canon[strings.Index(canon, ".")+1:]
+}
+
+func ccRooted(canon, root string) bool {
+	return canon == root || strings.HasPrefix(canon, root+".")
+}
+
+// ccNilTest: cd says "<x> is nil" = isNil.
+func ccNilTest(cd ccCond) (ast.Expr, bool, bool) {
+	be, ok := ccStrip(cd.e).(*ast.BinaryExpr)
+	if !ok || (be.Op != token.EQL && be.Op != token.NEQ) {
+		return nil, false, false
+	}
+	var x ast.Expr
+	switch {
+	case ccUniverse(be.Y, "nil"):
+		x = be.X
+	case ccUniverse(be.X, "nil"):
+		x = be.Y
+	default:
+		return nil, false, false
+	}
+	return x, (be.Op == token.EQL) == cd.val, true
+}
+
+// ccGreater: cd says x > y.
+func ccGreater(cd ccCond) (ast.Expr, ast.Expr, bool) {
+	be, ok := ccStrip(cd.e).(*ast.BinaryExpr)
+	if !ok {
+		return nil, nil, false
+	}
+	switch {
+	case be.Op == token.GTR && cd.val, be.Op == token.LEQ && !cd.val:
+		return be.X, be.Y, true
+	case be.Op == token.LSS && cd.val, be.Op == token.GEQ && !cd.val:
+		return be.Y, be.X, true
+	}
+	return nil, nil, false
+}
+
+func ccIntLit(e ast.Expr, v string) bool {
+	bl, ok := ccStrip(e).(*ast.BasicLit)
+	return ok && bl.Kind == token.INT && bl.Value == v
+}
+
+// ccMentions: some identifier inside e stands for the variable / path `canon`.
+func ccMentions(e ast.Node, canon string, c *ccCtx) bool {
+	found := false
+	ast.Inspect(e, func(x ast.Node) bool {
+		switch y := x.(type) {
+		case *ast.FuncLit:
+			return false
+		case *ast.SelectorExpr:
+			if ccCanon(y, c) == canon {
+				found = true
+			}
+		case *ast.Ident:
+			if y.Obj != nil && ccCanon(y, c) == canon {
+				found = true
+			}
+		}
+		return !found
+	})
+	return found
+}
+
+// ccCarries: the value expression v (a variable is replaced by the expression that defined it) mentions `canon`.
+func ccCarries(v ast.Expr, canon string, c *ccCtx) bool {
+	if ccMentions(v, canon, c) {
+		return true
+	}
+	if r := ccDefRhs(ccObjOf(v)); r != nil {
+		return ccMentions(r, canon, c)
+	}
+	return false
+}
+
+func ccSameConds(a, b []ccCond) bool {
+	if len(a) != len(b) {
+		return false
+	}
+	for i := range a {
+		if a[i].e != b[i].e || a[i].val != b[i].val {
 			return false
 		}
 	}
 	return true
 }
 
-// facts 5 and 8
-func ccCapEvict(add *ast.FuncDecl) (string, bool) {
-	if ccRecvName(add) != "s" {
-		return "unknown", false
+// ---------------------------------------------------------------------------------------------------
+// memory store
+
+const ccDepth = 3
+
+// ccMem: the structural anchors of the memory store.
+type ccMem struct {
+	p        *ccPkg
+	enf      *ast.FuncDecl   // the goroutine body: the method with a select over two receiver channel fields, one case calling PushBack
+	reg      *ast.CommClause // the case that registers a message (calls PushBack)
+	unreg    *ast.CommClause // the other receiving case
+	regCh    string          // channel field received from in reg
+	unregCh  string
+	regVal   *ast.Object // the request received in reg
+	unregVal *ast.Object
+	with     *ast.FuncDecl // the lock wrapper: calls its func parameter on a local it has just locked
+	withLits map[*ast.FuncLit]bool
+	withOpaq bool // some call of the lock wrapper passes something else than a function literal
+}
+
+// ccRecvOf: the comm clause receives from `<recv>.<field>` binding the value with := ; returns field and bound object.
+func ccRecvOf(cl *ast.CommClause, recv *ast.Object) (string, *ast.Object) {
+	as, ok := cl.Comm.(*ast.AssignStmt)
+	if !ok || as.Tok != token.DEFINE || len(as.Rhs) != 1 || len(as.Lhs) == 0 {
+		return "", nil
 	}
-	body := ccBody(add)
-	// the unique top-level s.withMailbox(..., func(mb *mbox) {...}) statement
-	var lit *ast.FuncLit
-	iWM := -1
-	for i, s := range body {
-		es, ok := s.(*ast.ExprStmt)
-		if !ok {
-			continue
-		}
-		ce, ok := es.X.(*ast.CallExpr)
-		if !ok || src(ce.Fun) != "s.withMailbox" {
-			continue
-		}
-		if iWM >= 0 {
-			return "unknown", false
-		}
-		iWM = i
-		for _, a := range ce.Args {
-			if fl, ok := a.(*ast.FuncLit); ok {
-				lit = fl
+	u, ok := ccStrip(as.Rhs[0]).(*ast.UnaryExpr)
+	if !ok || u.Op != token.ARROW {
+		return "", nil
+	}
+	se, ok := ccStrip(u.X).(*ast.SelectorExpr)
+	if !ok || !ccIsVar(se.X, recv) {
+		return "", nil
+	}
+	o := ccObjOf(as.Lhs[0])
+	if o == nil {
+		return "", nil
+	}
+	return se.Sel.Name, o
+}
+
+func ccHasMethodCall(n ast.Node, name string) bool {
+	found := false
+	ast.Inspect(n, func(x ast.Node) bool {
+		if ce, ok := x.(*ast.CallExpr); ok {
+			if _, ok := ccMethodCall(ce, name); ok {
+				found = true
 			}
 		}
-	}
-	if iWM < 0 || lit == nil || len(ccCalls(add.Body, "s.withMailbox")) != 1 {
-		return "unknown", false
-	}
-
-	// range evicted loop after the withMailbox call
-	iRange := -1
-	var rng *ast.RangeStmt
-	for i, s := range body {
-		rs, ok := s.(*ast.RangeStmt)
-		if !ok || src(rs.X) != "evicted" {
-			continue
-		}
-		if iRange >= 0 {
-			return "unknown", false
-		}
-		iRange, rng = i, rs
-	}
-	notifies := false
-	if rng != nil && iRange > iWM && rng.Tok == token.DEFINE && rng.Key != nil && rng.Value != nil &&
-		src(rng.Key) == "_" && src(rng.Value) == "old" {
-		emit := ccIndex(rng.Body.List, func(s ast.Stmt) bool { return ccIsExprStmt(s, "s.emitDeleted(old)") }) >= 0
-		rem := ccIndex(rng.Body.List, func(s ast.Stmt) bool { return ccIsExprStmt(s, "s.enforcerRemove(old)") }) >= 0
-		notifies = emit && rem
-	}
-
-	// fact 8: s.enforcerDeliver(m) is a top-level statement after the notification loop
-	deliverLast := false
-	iDel := ccIndex(body, func(s ast.Stmt) bool { return ccIsExprStmt(s, "s.enforcerDeliver(m)") })
-	if rng != nil && iRange > iWM && iDel > iRange && len(ccCalls(add.Body, "s.enforcerDeliver")) == 1 {
-		deliverLast = true
-	}
-
-	// the cap loop inside the closure
-	var loops []*ast.ForStmt
-	ast.Inspect(lit.Body, func(x ast.Node) bool {
-		if fs, ok := x.(*ast.ForStmt); ok && fs.Cond != nil && src(fs.Cond) == "len(mb.messages) > s.cap" {
-			loops = append(loops, fs)
-		}
-		return true
+		return !found
 	})
-	if len(loops) != 1 {
-		return "unknown", deliverLast
-	}
-	loop := loops[0]
-	var deletes []*ast.CallExpr
-	for _, d := range ccCalls(loop.Body, "delete") {
-		if len(d.Args) == 2 && src(d.Args[0]) == "mb.messages" {
-			deletes = append(deletes, d)
-		}
-	}
-	if len(deletes) == 0 {
-		return "unknown", deliverLast
-	}
+	return found
+}
 
-	// collecting shape: if old, ok := mb.messages[key]; ok { delete(mb.messages, key); evicted = append(evicted, old) }
-	collects := false
-	for _, s := range loop.Body.List {
-		is, ok := s.(*ast.IfStmt)
-		if !ok || is.Init == nil || src(is.Init) != "old, ok := mb.messages[key]" || src(is.Cond) != "ok" {
+func ccNewMem(p *ccPkg) *ccMem {
+	m := &ccMem{p: p, withLits: map[*ast.FuncLit]bool{}}
+	// the enforcer
+	cands := 0
+	for _, fd := range p.all {
+		recv := ccRecvObj(fd)
+		if recv == nil || fd.Body == nil {
 			continue
 		}
-		iD := ccIndex(is.Body.List, func(s ast.Stmt) bool { return ccIsExprStmt(s, "delete(mb.messages, key)") })
-		iA := ccIndex(is.Body.List, func(s ast.Stmt) bool { return ccIsAssign(s, "evicted = append(evicted, old)") })
-		if iD >= 0 && iA >= 0 {
-			collects = true
-			// every delete of the loop must be the collected one
-			for _, d := range deletes {
-				if !ccWithin(d, is.Body) {
-					collects = false
+		ast.Inspect(fd.Body, func(x ast.Node) bool {
+			sel, ok := x.(*ast.SelectStmt)
+			if !ok {
+				return true
+			}
+			var cls []*ast.CommClause
+			for _, s := range sel.Body.List {
+				if cl, ok := s.(*ast.CommClause); ok && cl.Comm != nil {
+					if f, _ := ccRecvOf(cl, recv); f != "" {
+						cls = append(cls, cl)
+					}
+				}
+			}
+			if len(cls) != 2 {
+				return true
+			}
+			a := ccHasMethodCall(&ast.BlockStmt{List: cls[0].Body}, "PushBack")
+			b := ccHasMethodCall(&ast.BlockStmt{List: cls[1].Body}, "PushBack")
+			if a == b {
+				return true
+			}
+			if b {
+				cls[0], cls[1] = cls[1], cls[0]
+			}
+			cands++
+			m.enf, m.reg, m.unreg = fd, cls[0], cls[1]
+			m.regCh, m.regVal = ccRecvOf(cls[0], recv)
+			m.unregCh, m.unregVal = ccRecvOf(cls[1], recv)
+			return true
+		})
+	}
+	if cands != 1 || m.regCh == m.unregCh {
+		m.enf = nil
+	}
+	if m.enf != nil {
+		// it must be started with `go`
+		started := false
+		for _, fd := range p.all {
+			if fd.Body == nil {
+				continue
+			}
+			ast.Inspect(fd.Body, func(x ast.Node) bool {
+				if gs, ok := x.(*ast.GoStmt); ok && p.callee(gs.Call, fd) == m.enf {
+					started = true
+				}
+				return true
+			})
+		}
+		if !started {
+			m.enf = nil
+		}
+	}
+	// the lock wrapper
+	nWith := 0
+	for _, fd := range p.all {
+		if fd.Body == nil || fd.Type.Params == nil {
+			continue
+		}
+		var fparams []*ast.Object
+		for _, f := range fd.Type.Params.List {
+			if _, ok := f.Type.(*ast.FuncType); ok {
+				for _, nm := range f.Names {
+					fparams = append(fparams, nm.Obj)
 				}
 			}
 		}
+		is := false
+		for _, fp := range fparams {
+			ast.Inspect(fd.Body, func(x ast.Node) bool {
+				ce, ok := x.(*ast.CallExpr)
+				if !ok || !ccIsVar(ce.Fun, fp) || len(ce.Args) != 1 {
+					return true
+				}
+				xo := ccObjOf(ce.Args[0])
+				if xo == nil || xo == ccRecvObj(fd) {
+					return true
+				}
+				ast.Inspect(fd.Body, func(y ast.Node) bool {
+					if lc, ok := y.(*ast.CallExpr); ok && len(lc.Args) == 0 {
+						for _, nm := range []string{"Lock", "RLock"} {
+							if r, ok := ccMethodCall(lc, nm); ok && ccIsVar(r, xo) {
+								is = true
+							}
+						}
+					}
+					return true
+				})
+				return true
+			})
+		}
+		if is {
+			nWith++
+			m.with = fd
+		}
 	}
-	if collects && notifies {
-		return "collectsAndNotifies", deliverLast
+	if nWith != 1 {
+		m.with = nil
+	}
+	if m.with != nil {
+		for _, fd := range p.all {
+			if fd.Body == nil {
+				continue
+			}
+			ast.Inspect(fd.Body, func(x ast.Node) bool {
+				ce, ok := x.(*ast.CallExpr)
+				if !ok || p.callee(ce, fd) != m.with {
+					return true
+				}
+				n := 0
+				for _, a := range ce.Args {
+					if fl := ccLitArg(a); fl != nil {
+						m.withLits[fl] = true
+						n++
+					}
+				}
+				if n != 1 {
+					m.withOpaq = true
+				}
+				return true
+			})
+		}
+	}
+	return m
+}
+
+// ccLitArg: the function literal passed as argument a, directly or through a local defined once as that literal.
+func ccLitArg(a ast.Expr) *ast.FuncLit {
+	if fl, ok := ccStrip(a).(*ast.FuncLit); ok {
+		return fl
+	}
+	if fl, ok := ccStrip(ccDefRhs(ccObjOf(a))).(*ast.FuncLit); ok {
+		return fl
+	}
+	return nil
+}
+
+func (m *ccMem) underLock(c *ccCtx) bool {
+	for _, l := range c.lits {
+		if m.withLits[l] {
+			return true
+		}
+	}
+	return false
+}
+
+// sendOn: site is a send statement on the receiver's channel field `ch`.
+func ccSendOn(s ccSite, ch string) *ast.SendStmt {
+	ss, ok := s.n.(*ast.SendStmt)
+	if !ok || ch == "" || ccField(ccCanon(ss.Chan, s.c)) != ch {
+		return nil
+	}
+	return ss
+}
+
+// fact 1
+func (m *ccMem) callSite() string {
+	if m.enf == nil || m.with == nil || m.withOpaq || len(m.withLits) == 0 {
+		return "unknown"
+	}
+	type reach struct{ reg, unreg, unregInLoop bool }
+	out := map[string]reach{}
+	for _, fd := range m.p.all {
+		if fd.Body == nil || fd == m.enf {
+			continue
+		}
+		var r reach
+		for _, s := range ccScanAll(m.p, fd, fd.Body.List, ccDepth) {
+			isReg, isUnreg := ccSendOn(s, m.regCh) != nil, ccSendOn(s, m.unregCh) != nil
+			if !isReg && !isUnreg {
+				continue
+			}
+			if m.underLock(s.c) {
+				return "insideLock"
+			}
+			if s.c.inGo || s.c.deferred || len(s.c.lits) > 0 {
+				return "unknown"
+			}
+			r.reg = r.reg || isReg
+			r.unreg = r.unreg || isUnreg
+			r.unregInLoop = r.unregInLoop || (isUnreg && s.c.loops() > 0)
+		}
+		if ccRecvType(fd) == ccRecvType(m.enf) && ast.IsExported(fd.Name.Name) {
+			out[fd.Name.Name] = r
+		}
+	}
+	if out["AddMessage"].reg && out["RemoveMessage"].unreg && out["PurgeMessages"].unregInLoop {
+		return "outsideLock"
+	}
+	return "unknown"
+}
+
+// ccClosesDone: n contains close(<something reached from the request `root`>).
+func ccClosesDone(n ast.Node, root string, c *ccCtx) bool {
+	found := false
+	ast.Inspect(n, func(x ast.Node) bool {
+		if ce, ok := x.(*ast.CallExpr); ok && ccUniverse(ce.Fun, "close") && len(ce.Args) == 1 {
+			if k := ccCanon(ce.Args[0], c); k != root && ccRooted(k, root) {
+				found = true
+			}
+		}
+		return !found
+	})
+	return found
+}
+
+// ccFinalClose: a close of the request's channel that is not nested in any compound statement of the case
+// (preceding guard clauses apart), after position `after`.
+func ccFinalClose(sites []ccSite, root string, after []token.Pos) bool {
+	for _, s := range sites {
+		ce, ok := s.n.(*ast.CallExpr)
+		if !ok || !ccUniverse(ce.Fun, "close") || len(ce.Args) != 1 || len(s.c.encl) != 0 || s.c.deferred || s.c.inGo {
+			continue
+		}
+		if k := ccCanon(ce.Args[0], s.c); k != root && ccRooted(k, root) && (after == nil || ccKeyLess(after, s.key)) {
+			return true
+		}
+	}
+	return false
+}
+
+// fact 2: returns the variant and the names of the element field and of the flag field.
+func (m *ccMem) enforcerRemove() (string, string, string) {
+	if m.enf == nil {
+		return "unknown", "", ""
+	}
+	sites := ccScan(m.p, m.enf, m.unreg.Body, ccDepth)
+	root := ccObjKey(m.unregVal)
+	var removes []ccSite
+	elCanon, msgCanon, elField := "", "", ""
+	for _, s := range sites {
+		ce, ok := s.n.(*ast.CallExpr)
+		if !ok || len(ce.Args) != 1 {
+			continue
+		}
+		if _, ok := ccMethodCall(ce, "Remove"); !ok {
+			continue
+		}
+		se, ok := ccStrip(ce.Args[0]).(*ast.SelectorExpr)
+		if !ok {
+			return "unknown", "", ""
+		}
+		k := ccCanon(se, s.c)
+		if !ccRooted(k, root) || (elCanon != "" && k != elCanon) {
+			return "unknown", "", ""
+		}
+		elCanon, msgCanon, elField = k, ccCanon(se.X, s.c), se.Sel.Name
+		removes = append(removes, s)
+	}
+	if len(removes) == 0 || !ccFinalClose(sites, root, nil) {
+		return "unknown", "", ""
+	}
+	isElNil := func(cd ccCond, c *ccCtx) (bool, bool) {
+		x, isNil, ok := ccNilTest(cd)
+		if !ok || ccCanon(x, c) != elCanon {
+			return false, false
+		}
+		return isNil, true
+	}
+	tests := 0
+	for _, s := range sites {
+		if be, ok := s.n.(*ast.BinaryExpr); ok {
+			if _, ok := isElNil(ccCond{e: be, val: true}, s.c); ok {
+				tests++
+			}
+		}
+	}
+	guarded := 0
+	for _, r := range removes {
+		for _, cd := range r.c.conds {
+			if isNil, ok := isElNil(cd, r.c); ok && !isNil {
+				guarded++
+				break
+			}
+		}
+	}
+	if tests == 0 && guarded == 0 {
+		return "unguarded", elField, ""
+	}
+	if guarded != len(removes) {
+		return "unknown", "", ""
+	}
+	gone := ""
+	for _, s := range sites {
+		as, ok := s.n.(*ast.AssignStmt)
+		if !ok || as.Tok != token.ASSIGN || len(as.Lhs) != 1 || len(as.Rhs) != 1 || !ccUniverse(as.Rhs[0], "true") {
+			continue
+		}
+		se, ok := ccStrip(as.Lhs[0]).(*ast.SelectorExpr)
+		if !ok || ccCanon(se.X, s.c) != msgCanon {
+			continue
+		}
+		for _, cd := range s.c.conds {
+			if isNil, ok := isElNil(cd, s.c); ok && isNil {
+				if gone != "" && gone != se.Sel.Name {
+					return "unknown", "", ""
+				}
+				gone = se.Sel.Name
+			}
+		}
+	}
+	if gone == "" {
+		return "unknown", "", ""
+	}
+	return "goneFlag", elField, gone
+}
+
+// the unique PushBack of the register case
+func (m *ccMem) pushBack(sites []ccSite) (*ccSite, string) {
+	root := ccObjKey(m.regVal)
+	var res *ccSite
+	msg := ""
+	for i, s := range sites {
+		ce, ok := s.n.(*ast.CallExpr)
+		if !ok {
+			continue
+		}
+		if _, ok := ccMethodCall(ce, "PushBack"); !ok {
+			continue
+		}
+		if res != nil || len(ce.Args) != 1 {
+			return nil, ""
+		}
+		k := ccCanon(ce.Args[0], s.c)
+		if k == root || !ccRooted(k, root) {
+			return nil, ""
+		}
+		res, msg = &sites[i], k
+	}
+	return res, msg
+}
+
+// fact 3
+func (m *ccMem) incomingSkipsGone(elField, goneField string) bool {
+	if m.enf == nil || goneField == "" {
+		return false
+	}
+	sites := ccScan(m.p, m.enf, m.reg.Body, ccDepth)
+	root := ccObjKey(m.regVal)
+	push, msg := m.pushBack(sites)
+	if push == nil {
+		return false
+	}
+	// the element returned by PushBack is stored in the element field of the same message
+	stored := false
+	for _, s := range sites {
+		as, ok := s.n.(*ast.AssignStmt)
+		if !ok || as.Tok != token.ASSIGN || len(as.Lhs) != 1 || len(as.Rhs) != 1 {
+			continue
+		}
+		se, ok := ccStrip(as.Lhs[0]).(*ast.SelectorExpr)
+		if !ok || se.Sel.Name != elField || ccCanon(se.X, s.c) != msg {
+			continue
+		}
+		r := ccStrip(as.Rhs[0])
+		if r == ast.Expr(push.n.(*ast.CallExpr)) {
+			stored = true
+		} else if d := ccDefRhs(ccObjOf(r)); d != nil && ccStrip(d) == ast.Expr(push.n.(*ast.CallExpr)) {
+			stored = true
+		}
+	}
+	if !stored {
+		return false
+	}
+	skip := false
+	for _, cd := range push.c.conds {
+		se, ok := ccStrip(cd.e).(*ast.SelectorExpr)
+		if !ok || cd.val || se.Sel.Name != goneField || ccCanon(se.X, push.c) != msg {
+			continue
+		}
+		switch cd.other {
+		case "continue":
+			skip = ccClosesDone(&ast.BlockStmt{List: cd.otherBody}, root, push.c)
+		case "fall":
+			skip = true // the final close below serves both paths
+		}
+	}
+	return skip && ccFinalClose(sites, root, push.key)
+}
+
+// fact 4
+func (m *ccMem) evictStopsOnEmpty() bool {
+	if m.enf == nil {
+		return false
+	}
+	sites := ccScan(m.p, m.enf, m.reg.Body, ccDepth)
+	push, _ := m.pushBack(sites)
+	if push == nil {
+		return false
+	}
+	listX, _ := ccMethodCall(push.n.(*ast.CallExpr), "PushBack")
+	list := ccCanon(listX, push.c)
+	params := map[*ast.Object]bool{}
+	if m.enf.Type.Params != nil {
+		for _, f := range m.enf.Type.Params.List {
+			for _, nm := range f.Names {
+				params[nm.Obj] = true
+			}
+		}
+	}
+	n := 0
+	for _, s := range sites {
+		ce, ok := s.n.(*ast.CallExpr)
+		if !ok {
+			continue
+		}
+		lx, ok := ccMethodCall(ce, "Remove")
+		if !ok {
+			continue
+		}
+		if len(ce.Args) != 1 || ccCanon(lx, s.c) != list {
+			return false
+		}
+		el := ccObjOf(ce.Args[0])
+		d, ok := ccStrip(ccDefRhs(el)).(*ast.CallExpr)
+		if el == nil || !ok {
+			return false
+		}
+		if fx, ok := ccMethodCall(d, "Front"); !ok || ccCanon(fx, s.c) != list {
+			return false
+		}
+		var loop *ast.ForStmt
+		for _, cd := range s.c.conds {
+			if cd.loop == nil {
+				continue
+			}
+			if x, y, ok := ccGreater(cd); ok && ccObjOf(x) != nil && !params[ccObjOf(x)] && params[ccObjOf(y)] {
+				loop = cd.loop
+			}
+		}
+		if loop == nil {
+			return false
+		}
+		// e is taken afresh in every iteration: defined in the loop body, or in the init statement and
+		// re-assigned from Front() by the post statement
+		fresh := ccWithin(el.Decl.(ast.Node), loop.Body)
+		if !fresh && loop.Init != nil && ccWithin(el.Decl.(ast.Node), loop.Init) {
+			if as, ok := loop.Post.(*ast.AssignStmt); ok && as.Tok == token.ASSIGN && len(as.Lhs) == 1 && len(as.Rhs) == 1 && ccIsVar(as.Lhs[0], el) {
+				if pc, ok := ccStrip(as.Rhs[0]).(*ast.CallExpr); ok {
+					if fx, ok := ccMethodCall(pc, "Front"); ok && ccCanon(fx, s.c) == list {
+						fresh = true
+					}
+				}
+			}
+		}
+		if !fresh {
+			return false
+		}
+		okNil := false
+		for _, cd := range s.c.conds {
+			if x, isNil, ok := ccNilTest(cd); ok && ccIsVar(x, el) && !isNil &&
+				((cd.other == "break" && cd.otherTarget == ast.Node(loop)) || cd.loop == loop) {
+				okNil = true
+			}
+		}
+		if !okNil {
+			return false
+		}
+		n++
+	}
+	return n > 0
+}
+
+// ccCapField: the field of the store initialised from the configuration's MailboxMsgCap.
+func (m *ccMem) capField() string {
+	res := ""
+	for _, f := range m.p.files {
+		ast.Inspect(f, func(x ast.Node) bool {
+			kv, ok := x.(*ast.KeyValueExpr)
+			if !ok {
+				return true
+			}
+			if se, ok := ccStrip(kv.Value).(*ast.SelectorExpr); ok && se.Sel.Name == "MailboxMsgCap" {
+				if id, ok := kv.Key.(*ast.Ident); ok {
+					res = id.Name
+				}
+			}
+			return true
+		})
+	}
+	return res
+}
+
+func ccIsEmit(ce *ast.CallExpr) bool {
+	x, ok := ccMethodCall(ce, "Emit")
+	if !ok {
+		return false
+	}
+	se, ok := ccStrip(x).(*ast.SelectorExpr)
+	return ok && se.Sel.Name == "AfterMessageDeleted"
+}
+
+// facts 5 and 8
+func (m *ccMem) capEvict() (string, bool) {
+	add := m.p.method("Store", "AddMessage")
+	capF := m.capField()
+	if m.enf == nil || m.with == nil || add == nil || capF == "" || ccRecvObj(add) == nil {
+		return "unknown", false
+	}
+	sites := ccScan(m.p, add, add.Body.List, ccDepth)
+	recv := ccObjKey(ccRecvObj(add))
+	// the single use of the lock wrapper and its closure
+	var lit *ast.FuncLit
+	var wkey []token.Pos
+	wconds := 0
+	for _, s := range sites {
+		ce, ok := s.n.(*ast.CallExpr)
+		if !ok || m.p.callee(ce, s.c.fn) != m.with {
+			continue
+		}
+		if lit != nil {
+			return "unknown", false
+		}
+		for _, a := range ce.Args {
+			if fl := ccLitArg(a); fl != nil {
+				lit = fl
+			}
+		}
+		wkey, wconds = s.key, len(s.c.conds)
+		if lit == nil {
+			return "unknown", false
+		}
+	}
+	if lit == nil || lit.Type.Params == nil || len(lit.Type.Params.List) != 1 || len(lit.Type.Params.List[0].Names) != 1 {
+		return "unknown", false
+	}
+	box := ccObjKey(lit.Type.Params.List[0].Names[0].Obj)
+
+	// the message stored into the map, and the map
+	var del *ccSite
+	for i, s := range sites {
+		ce, ok := s.n.(*ast.CallExpr)
+		if ok && ccUniverse(ce.Fun, "delete") && len(ce.Args) == 2 {
+			if del != nil || !s.c.inLit(lit) {
+				return "unknown", false
+			}
+			del = &sites[i]
+		}
+	}
+	if del == nil {
+		return "unknown", false
+	}
+	delCall := del.n.(*ast.CallExpr)
+	mapK := ccCanon(delCall.Args[0], del.c)
+	if !ccRooted(mapK, box) || mapK == box {
+		return "unknown", false
+	}
+	stored := ""
+	for _, s := range sites {
+		as, ok := s.n.(*ast.AssignStmt)
+		if !ok || !s.c.inLit(lit) || as.Tok != token.ASSIGN || len(as.Lhs) != 1 || len(as.Rhs) != 1 {
+			continue
+		}
+		if ix, ok := ccStrip(as.Lhs[0]).(*ast.IndexExpr); ok && ccCanon(ix.X, s.c) == mapK && ccObjOf(as.Rhs[0]) != nil && len(s.c.conds) == wconds {
+			stored = ccCanon(as.Rhs[0], s.c)
+		}
 	}
 
-	// silent: nothing in the loop collects, nothing in AddMessage notifies
-	mentionsEvicted := false
-	ast.Inspect(add.Body, func(x ast.Node) bool {
-		if id, ok := x.(*ast.Ident); ok && id.Name == "evicted" {
-			mentionsEvicted = true
+	// fact 8: the registration with the enforcer
+	var regKey []token.Pos
+	nReg := 0
+	for _, s := range sites {
+		if ss := ccSendOn(s, m.regCh); ss != nil {
+			nReg++
+			if !s.c.inLit(lit) && stored != "" && ccCarries(ss.Value, stored, s.c) && len(s.c.lits) == 0 && !s.c.inGo && !s.c.deferred {
+				regKey = s.key
+			}
 		}
-		return true
-	})
-	anyNotify := len(ccCalls(add.Body, "s.emitDeleted")) > 0 || len(ccCalls(add.Body, "s.enforcerRemove")) > 0
-	ast.Inspect(add.Body, func(x ast.Node) bool {
-		if se, ok := x.(*ast.SelectorExpr); ok && se.Sel.Name == "Emit" {
-			anyNotify = true
+	}
+
+	// the eviction loop: `len(map) > recv.cap` is (a conjunct of) the loop condition, `recv.cap > 0` is known
+	var loop *ast.ForStmt
+	capPos := false
+	for _, cd := range del.c.conds {
+		x, y, ok := ccGreater(cd)
+		if !ok {
+			continue
 		}
-		return true
-	})
-	if !mentionsEvicted && !anyNotify && rng == nil && len(ccCalls(loop.Body, "append")) == 0 {
+		if ce, isCall := ccStrip(x).(*ast.CallExpr); isCall && cd.loop != nil && ccUniverse(ce.Fun, "len") && len(ce.Args) == 1 &&
+			ccCanon(ce.Args[0], del.c) == mapK && ccCanon(y, del.c) == recv+"."+capF {
+			loop = cd.loop
+		}
+		if ccCanon(x, del.c) == recv+"."+capF && ccIntLit(y, "0") {
+			capPos = true
+		}
+	}
+	if loop == nil || !capPos || !ccWithin(loop, lit) {
+		return "unknown", false
+	}
+	// the key is Itoa(<box>.<first>) and <box>.<first> is incremented once per iteration
+	keyE := ccStrip(delCall.Args[1])
+	keyK := ccCanon(keyE, del.c)
+	if r := ccDefRhs(ccObjOf(keyE)); r != nil {
+		keyE = ccStrip(r)
+	}
+	kc, ok := keyE.(*ast.CallExpr)
+	if !ok || !m.p.pkgCall(kc, "strconv", "Itoa") || len(kc.Args) != 1 {
+		return "unknown", false
+	}
+	first := ccCanon(kc.Args[0], del.c)
+	if !ccRooted(first, box) || first == box {
+		return "unknown", false
+	}
+	incs := 0
+	for _, s := range loop.Body.List {
+		if ids, ok := s.(*ast.IncDecStmt); ok && ids.Tok == token.INC && ccCanon(ids.X, del.c) == first {
+			incs++
+		}
+	}
+	if incs != 1 {
+		return "unknown", false
+	}
+
+	// collection: the deleted value is appended to a slice declared outside the closure, under the same conditions
+	var coll *ast.Object
+	nApp := 0
+	for _, s := range sites {
+		as, ok := s.n.(*ast.AssignStmt)
+		if !ok || !s.c.inLit(lit) || len(as.Lhs) != 1 || len(as.Rhs) != 1 {
+			continue
+		}
+		ce, ok := ccStrip(as.Rhs[0]).(*ast.CallExpr)
+		if !ok || !ccUniverse(ce.Fun, "append") {
+			continue
+		}
+		nApp++
+		v := ccObjOf(as.Lhs[0])
+		if v == nil || len(ce.Args) != 2 || !ccIsVar(ce.Args[0], v) || v.Pos() >= lit.Pos() || ce.Ellipsis.IsValid() {
+			continue
+		}
+		d := ccDefRhs(ccObjOf(ce.Args[1]))
+		if d == nil {
+			// `old, ok := map[key]` has two left-hand sides and one right-hand side
+			if o := ccObjOf(ce.Args[1]); o != nil {
+				if das, ok := o.Decl.(*ast.AssignStmt); ok && len(das.Rhs) == 1 && len(das.Lhs) == 2 && ccIsVar(das.Lhs[0], o) {
+					d = das.Rhs[0]
+				}
+			}
+		}
+		ix, ok := ccStrip(d).(*ast.IndexExpr)
+		if d == nil || !ok || ccCanon(ix.X, s.c) != mapK || ccCanon(ix.Index, s.c) != keyK {
+			continue
+		}
+		if ccSameConds(s.c.conds, del.c.conds) && ccWithin(as, loop) {
+			coll = v
+		}
+	}
+
+	// notification after the closure: range over the collected slice, Emit(deleted) and the un-registration of each element
+	var rngKey []token.Pos
+	notifies := false
+	if coll != nil {
+		for _, s := range sites {
+			rs, ok := s.n.(*ast.RangeStmt)
+			if !ok || ccCanon(rs.X, s.c) != ccObjKey(coll) || s.c.inLit(lit) || !ccKeyLess(wkey, s.key) || ccObjOf(rs.Value) == nil || rs.Tok != token.DEFINE {
+				continue
+			}
+			if rngKey != nil {
+				return "unknown", false
+			}
+			rngKey = s.key
+			elem := ccObjKey(ccObjOf(rs.Value))
+			emit, unreg := false, false
+			for _, t := range sites {
+				if !t.c.hasEncl(rs) || len(t.c.lits) > 0 || t.c.inGo || t.c.deferred {
+					continue
+				}
+				if ce, ok := t.n.(*ast.CallExpr); ok && ccIsEmit(ce) && len(ce.Args) == 1 && ccMentions(ce.Args[0], elem, t.c) {
+					emit = true
+				}
+				if ss := ccSendOn(t, m.unregCh); ss != nil && ccCarries(ss.Value, elem, t.c) {
+					unreg = true
+				}
+			}
+			notifies = emit && unreg
+		}
+	}
+	deliverLast := nReg == 1 && regKey != nil && rngKey != nil && ccKeyLess(rngKey, regKey)
+	if coll != nil && nApp == 1 && notifies {
+		return "collectsAndNotifies", deliverLast
+	}
+	// silent: nothing is collected and AddMessage announces nothing
+	if nApp == 0 {
+		for _, s := range sites {
+			if ce, ok := s.n.(*ast.CallExpr); ok {
+				if _, isEmit := ccMethodCall(ce, "Emit"); isEmit {
+					return "unknown", deliverLast
+				}
+			}
+			if ccSendOn(s, m.unregCh) != nil {
+				return "unknown", deliverLast
+			}
+		}
 		return "silent", deliverLast
 	}
 	return "unknown", deliverLast
 }
 
 // fact 6
-func ccSeenAtomic(msg, store *ast.File) bool {
-	if msg == nil || store == nil || !ccImports(msg, "sync/atomic", "atomic") {
-		return false
-	}
-	// field
-	fieldOK := false
-	for _, d := range msg.Decls {
-		gd, ok := d.(*ast.GenDecl)
-		if !ok || gd.Tok != token.TYPE {
-			continue
-		}
-		for _, sp := range gd.Specs {
-			ts, ok := sp.(*ast.TypeSpec)
-			if !ok || ts.Name.Name != "Message" {
+func (m *ccMem) seenAtomic() bool {
+	// the field of Message whose type is atomic.Bool
+	field := ""
+	for _, f := range m.p.files {
+		for _, d := range f.Decls {
+			gd, ok := d.(*ast.GenDecl)
+			if !ok || gd.Tok != token.TYPE {
 				continue
 			}
-			st, ok := ts.Type.(*ast.StructType)
-			if !ok {
-				return false
-			}
-			for _, f := range st.Fields.List {
-				for _, n := range f.Names {
-					if n.Name == "seen" {
-						fieldOK = src(f.Type) == "atomic.Bool"
+			for _, sp := range gd.Specs {
+				ts, ok := sp.(*ast.TypeSpec)
+				if !ok || ts.Name.Name != "Message" {
+					continue
+				}
+				st, ok := ts.Type.(*ast.StructType)
+				if !ok {
+					return false
+				}
+				for _, fl := range st.Fields.List {
+					se, ok := fl.Type.(*ast.SelectorExpr)
+					if !ok || se.Sel.Name != "Bool" {
+						continue
+					}
+					if id, ok := se.X.(*ast.Ident); ok && m.p.imports[id.Name] == "sync/atomic" {
+						if field != "" || len(fl.Names) != 1 {
+							return false
+						}
+						field = fl.Names[0].Name
 					}
 				}
 			}
 		}
 	}
-	if !fieldOK {
+	if field == "" {
 		return false
 	}
-	// MarkSeen of the mem store
-	ms := fn(store, "Store", "MarkSeen")
-	if ms == nil || len(ccCallsSrc(ms, "m.seen.Store(true)")) == 0 {
+	// Seen returns <recv>.<field>.Load()
+	seen := m.p.method("Message", "Seen")
+	if seen == nil {
 		return false
 	}
-	// Seen
-	seen := fn(msg, "Message", "Seen")
-	if ccRecvName(seen) != "m" || len(ccBody(seen)) != 1 {
+	loads, rets := 0, 0
+	ast.Inspect(seen.Body, func(x ast.Node) bool {
+		if rs, ok := x.(*ast.ReturnStmt); ok {
+			rets++
+			if len(rs.Results) == 1 {
+				if ce, ok := ccStrip(rs.Results[0]).(*ast.CallExpr); ok && len(ce.Args) == 0 {
+					if fx, ok := ccMethodCall(ce, "Load"); ok {
+						if se, ok := ccStrip(fx).(*ast.SelectorExpr); ok && se.Sel.Name == field && ccIsVar(se.X, ccRecvObj(seen)) {
+							loads++
+						}
+					}
+				}
+			}
+		}
+		return true
+	})
+	if loads != 1 || rets != 1 {
 		return false
 	}
-	rs, ok := seen.Body.List[0].(*ast.ReturnStmt)
-	return ok && len(rs.Results) == 1 && src(rs.Results[0]) == "m.seen.Load()"
-}
-
-// ccLockChoice: s is `if writeLock { mb.<w>() } else { mb.<r>() }`.
-func ccLockChoice(s ast.Stmt, w, r string) bool {
-	is := ccPlainIf(s, "writeLock")
-	if is == nil || len(is.Body.List) != 1 || !ccIsExprStmt(is.Body.List[0], "mb."+w+"()") {
+	// MarkSeen reaches <message>.<field>.Store(true)
+	ms := m.p.method("Store", "MarkSeen")
+	if ms == nil {
 		return false
 	}
-	eb, ok := is.Else.(*ast.BlockStmt)
-	return ok && len(eb.List) == 1 && ccIsExprStmt(eb.List[0], "mb."+r+"()")
+	stores := 0
+	for _, s := range ccScan(m.p, ms, ms.Body.List, ccDepth) {
+		if ce, ok := s.n.(*ast.CallExpr); ok && len(ce.Args) == 1 && ccUniverse(ce.Args[0], "true") {
+			if fx, ok := ccMethodCall(ce, "Store"); ok {
+				if se, ok := ccStrip(fx).(*ast.SelectorExpr); ok && se.Sel.Name == field {
+					stores++
+				}
+			}
+		}
+	}
+	return stores == 1
 }
 
 // fact 7
-func ccWithMailbox(wm *ast.FuncDecl) bool {
-	if ccRecvName(wm) != "s" {
+func (m *ccMem) withMailboxShape() bool {
+	w := m.with
+	recv := ccRecvObj(w)
+	if w == nil || recv == nil {
 		return false
 	}
-	body := ccBody(wm)
-	if len(body) == 0 {
-		return false
-	}
-	iUnlock := ccIndex(body, func(s ast.Stmt) bool { return ccIsExprStmt(s, "s.Unlock()") })
-	iLock := ccIndex(body, func(s ast.Stmt) bool { return ccLockChoice(s, "Lock", "RLock") })
-	if iUnlock < 0 || iLock < 0 || !(iUnlock < iLock) {
-		return false
-	}
-	// the store lock is not touched again after its release
-	for _, s := range body[iUnlock+1:] {
-		for _, c := range []string{"s.Lock", "s.Unlock", "s.RLock", "s.RUnlock"} {
-			if len(ccCalls(s, c)) > 0 {
-				return false
+	// the bool parameter and the func parameter
+	var flag, fpar *ast.Object
+	for _, f := range w.Type.Params.List {
+		for _, nm := range f.Names {
+			if id, ok := f.Type.(*ast.Ident); ok && id.Name == "bool" && id.Obj == nil {
+				if flag != nil {
+					return false
+				}
+				flag = nm.Obj
+			}
+			if _, ok := f.Type.(*ast.FuncType); ok {
+				if fpar != nil {
+					return false
+				}
+				fpar = nm.Obj
 			}
 		}
 	}
-	// no store unlock is deferred
-	if len(ccCalls(wm.Body, "s.Unlock")) != 1 {
+	if flag == nil || fpar == nil {
 		return false
 	}
-	// deferred mailbox unlock, after the lock
-	iDefer := -1
-	for i, s := range body {
-		ds, ok := s.(*ast.DeferStmt)
+	sites := ccScan(m.p, w, w.Body.List, 0)
+	type lk struct {
+		s    ccSite
+		name string
+	}
+	var sLock, sUnlock, call *ccSite
+	var box *ast.Object
+	var bLocks, bUnlocks []lk
+	for i, s := range sites {
+		ce, ok := s.n.(*ast.CallExpr)
 		if !ok {
 			continue
 		}
-		fl, ok := ds.Call.Fun.(*ast.FuncLit)
-		if ok && len(ds.Call.Args) == 0 && len(fl.Body.List) == 1 && ccLockChoice(fl.Body.List[0], "Unlock", "RUnlock") {
-			iDefer = i
-		}
-	}
-	if iDefer < iLock {
-		return false
-	}
-	// mailbox unlocks appear only in that defer
-	for i, s := range body {
-		if i == iDefer {
-			continue
-		}
-		if len(ccCalls(s, "mb.Unlock")) > 0 || len(ccCalls(s, "mb.RUnlock")) > 0 {
-			return false
-		}
-	}
-	last := len(body) - 1
-	return last > iDefer && ccIsExprStmt(body[last], "f(mb)")
-}
-
-// ccErrBranch classifies the `if err != nil {...}` statement following a readDirNames call.
-func ccErrBranch(s ast.Stmt) string {
-	is := ccPlainIf(s, "err != nil")
-	if is == nil || is.Else != nil {
-		return "unknown"
-	}
-	isRetErr := func(s ast.Stmt) bool {
-		rs, ok := s.(*ast.ReturnStmt)
-		return ok && len(rs.Results) == 1 && src(rs.Results[0]) == "err"
-	}
-	l := is.Body.List
-	switch {
-	case len(l) == 1 && isRetErr(l[0]):
-		return "fatal"
-	case len(l) == 2 && isRetErr(l[1]):
-		in := ccPlainIf(l[0], "os.IsNotExist(err)")
-		if in != nil && in.Else == nil && len(in.Body.List) == 1 && ccIsBranch(in.Body.List[0], token.CONTINUE) {
-			return "tolerated"
-		}
-	}
-	return "unknown"
-}
-
-// fact 9
-func ccVisitENOENT(fstore *ast.File, visit *ast.FuncDecl) string {
-	if visit == nil || visit.Body == nil || !ccImports(fstore, "os", "os") {
-		return "unknown"
-	}
-	if len(ccCalls(visit.Body, "readDirNames")) != 3 {
-		return "unknown"
-	}
-	// listing at nesting depth d of the range loops -> class of its error branch
-	class := map[int]string{}
-	count := 0
-	var walk func(l []ast.Stmt, depth int)
-	walk = func(l []ast.Stmt, depth int) {
-		for i, s := range l {
-			if as, ok := s.(*ast.AssignStmt); ok && as.Tok == token.DEFINE && len(as.Lhs) == 2 && len(as.Rhs) == 1 &&
-				src(as.Lhs[1]) == "err" && len(ccCalls(as.Rhs[0], "readDirNames")) == 1 {
-				if ce, ok := as.Rhs[0].(*ast.CallExpr); ok && src(ce.Fun) == "readDirNames" {
-					count++
-					c := "unknown"
-					if i+1 < len(l) {
-						c = ccErrBranch(l[i+1])
-					}
-					if _, dup := class[depth]; dup {
-						c = "unknown"
-					}
-					class[depth] = c
-				}
-			}
-			if rs, ok := s.(*ast.RangeStmt); ok {
-				walk(rs.Body.List, depth+1)
-			}
-		}
-	}
-	walk(visit.Body.List, 0)
-	if count != 3 || len(class) != 3 {
-		return "unknown"
-	}
-	c1, ok1 := class[1]
-	c2, ok2 := class[2]
-	if !ok1 || !ok2 || c1 != c2 {
-		return "unknown"
-	}
-	return c1
-}
-
-// fact 10
-func ccFileLockedOps(fstore *ast.File) ([]string, bool) {
-	ops := []string{}
-	if fstore == nil {
-		return ops, false
-	}
-	total := 0
-	for _, d := range fstore.Decls {
-		fd, ok := d.(*ast.FuncDecl)
-		if !ok || fd.Recv == nil || len(fd.Recv.List) != 1 || !fd.Name.IsExported() || fd.Name.Name == "VisitMailboxes" {
-			continue
-		}
-		t := fd.Recv.List[0].Type
-		if s, ok := t.(*ast.StarExpr); ok {
-			t = s.X
-		}
-		if id, ok := t.(*ast.Ident); !ok || id.Name != "Store" {
-			continue
-		}
-		total++
-		if ccHoldsBucketLock(fd) {
-			ops = append(ops, fd.Name.Name)
-		}
-	}
-	sort.Strings(ops)
-	return ops, total > 0 && len(ops) == total
-}
-
-func ccHoldsBucketLock(fd *ast.FuncDecl) bool {
-	recv := ccRecvName(fd)
-	body := ccBody(fd)
-	if recv == "" || len(body) < 3 {
-		return false
-	}
-	if _, ok := fd.Recv.List[0].Type.(*ast.StarExpr); !ok {
-		return false
-	}
-	as, ok := body[0].(*ast.AssignStmt)
-	if !ok || as.Tok != token.DEFINE || len(as.Lhs) != 1 || len(as.Rhs) != 1 || src(as.Lhs[0]) != "mb" {
-		return false
-	}
-	ce, ok := as.Rhs[0].(*ast.CallExpr)
-	if !ok || src(ce.Fun) != recv+".mbox" || len(ce.Args) != 1 {
-		return false
-	}
-	var unlock string
-	switch {
-	case ccIsExprStmt(body[1], "mb.Lock()"):
-		unlock = "mb.Unlock()"
-	case ccIsExprStmt(body[1], "mb.RLock()"):
-		unlock = "mb.RUnlock()"
-	default:
-		return false
-	}
-	ds, ok := body[2].(*ast.DeferStmt)
-	if !ok || src(ds.Call) != unlock {
-		return false
-	}
-	// the lock is not released, retaken or rebound anywhere else in the body
-	for _, s := range body[3:] {
-		for _, c := range []string{"mb.Lock", "mb.Unlock", "mb.RLock", "mb.RUnlock"} {
-			if len(ccCalls(s, c)) > 0 {
+		if ccIsVar(ce.Fun, fpar) {
+			if call != nil || len(ce.Args) != 1 || ccObjOf(ce.Args[0]) == nil {
 				return false
 			}
+			call, box = &sites[i], ccObjOf(ce.Args[0])
+			continue
 		}
-		rebound := false
-		ast.Inspect(s, func(x ast.Node) bool {
-			if a, ok := x.(*ast.AssignStmt); ok {
-				for _, lhs := range a.Lhs {
-					if src(lhs) == "mb" {
-						rebound = true
-					}
+		for _, nm := range []string{"Lock", "Unlock", "RLock", "RUnlock"} {
+			x, ok := ccMethodCall(ce, nm)
+			if !ok || len(ce.Args) != 0 {
+				continue
+			}
+			if ccIsVar(x, recv) {
+				plain := len(s.c.encl) == 0 && !s.c.deferred && !s.c.inGo
+				switch {
+				case nm == "Lock" && sLock == nil && plain:
+					sLock = &sites[i]
+				case nm == "Unlock" && sUnlock == nil && plain:
+					sUnlock = &sites[i]
+				default:
+					return false
+				}
+				continue
+			}
+			if ccObjOf(x) == nil {
+				return false
+			}
+			if nm == "Lock" || nm == "RLock" {
+				bLocks = append(bLocks, lk{s, nm})
+			} else {
+				bUnlocks = append(bUnlocks, lk{s, nm})
+			}
+		}
+	}
+	if sLock == nil || sUnlock == nil || call == nil || box == nil || !ccKeyLess(sLock.key, sUnlock.key) {
+		return false
+	}
+	if len(call.c.encl) != 0 || call.c.deferred || call.c.inGo || len(bLocks) != 2 || len(bUnlocks) != 2 {
+		return false
+	}
+	// what the flag is known to be at a site
+	flagAt := func(c *ccCtx) (bool, bool) {
+		for _, cd := range c.conds {
+			if ccIsVar(cd.e, flag) {
+				return cd.val, true
+			}
+		}
+		return false, false
+	}
+	seen := map[string][]token.Pos{}
+	for _, l := range bLocks {
+		x, _ := ccMethodCall(l.s.n.(*ast.CallExpr), l.name)
+		v, ok := flagAt(l.s.c)
+		if !ccIsVar(x, box) || !ok || v != (l.name == "Lock") || l.s.c.deferred || l.s.c.inGo || len(l.s.c.lits) > 0 {
+			return false
+		}
+		if !ccKeyLess(sUnlock.key, l.s.key) || !ccKeyLess(l.s.key, call.key) || seen[l.name] != nil {
+			return false
+		}
+		seen[l.name] = l.s.key
+	}
+	for _, l := range bUnlocks {
+		x, _ := ccMethodCall(l.s.n.(*ast.CallExpr), l.name)
+		v, ok := flagAt(l.s.c)
+		if !ccIsVar(x, box) || !ok || v != (l.name == "Unlock") || !l.s.c.deferred || l.s.c.inGo || seen[l.name] != nil {
+			return false
+		}
+		lockKey := seen[map[string]string{"Unlock": "Lock", "RUnlock": "RLock"}[l.name]]
+		if lockKey == nil || !ccKeyLess(lockKey, l.s.key) || !ccKeyLess(l.s.key, call.key) {
+			return false
+		}
+		seen[l.name] = l.s.key
+	}
+	// every access to a map of the store (lookup and creation of the mailbox) happens under the store mutex,
+	// and the mailbox is not rebound after its release
+	for _, s := range sites {
+		switch x := s.n.(type) {
+		case *ast.IndexExpr:
+			if ccRooted(ccCanon(x.X, s.c), ccObjKey(recv)) && !(ccKeyLess(sLock.key, s.key) && ccKeyLess(s.key, sUnlock.key)) {
+				return false
+			}
+		case *ast.AssignStmt:
+			for _, l := range x.Lhs {
+				if ccIsVar(l, box) && !(ccKeyLess(sLock.key, s.key) && ccKeyLess(s.key, sUnlock.key)) {
+					return false
 				}
 			}
-			return true
-		})
-		if rebound {
-			return false
 		}
 	}
 	return true
 }
 
-// fact 11
-func ccVisitReadsLocked(visit *ast.FuncDecl) bool {
-	recv := ccRecvName(visit)
-	if recv == "" || visit.Body == nil {
+// new fact: which mailbox lock each exported operation takes, in order ("W" write, "R" read, "?" not a literal)
+func (m *ccMem) lockModes() []string {
+	res := []string{}
+	if m.with == nil {
+		return res
+	}
+	// position of the bool parameter of the lock wrapper
+	idx, i := -1, 0
+	for _, f := range m.with.Type.Params.List {
+		for range f.Names {
+			if id, ok := f.Type.(*ast.Ident); ok && id.Name == "bool" && id.Obj == nil {
+				idx = i
+			}
+			i++
+		}
+	}
+	for _, fd := range m.p.all {
+		if fd.Body == nil || !ast.IsExported(fd.Name.Name) || ccRecvType(fd) != ccRecvType(m.with) {
+			continue
+		}
+		modes := ""
+		for _, s := range ccScan(m.p, fd, fd.Body.List, ccDepth) {
+			ce, ok := s.n.(*ast.CallExpr)
+			if !ok || m.p.callee(ce, s.c.fn) != m.with {
+				continue
+			}
+			switch {
+			case idx >= 0 && idx < len(ce.Args) && ccUniverse(ce.Args[idx], "true"):
+				modes += "W"
+			case idx >= 0 && idx < len(ce.Args) && ccUniverse(ce.Args[idx], "false"):
+				modes += "R"
+			default:
+				modes += "?"
+			}
+		}
+		res = append(res, fd.Name.Name+":"+modes)
+	}
+	sort.Strings(res)
+	return res
+}
+
+// ---------------------------------------------------------------------------------------------------
+// file store
+
+func ccFuncParams(fd *ast.FuncDecl) []*ast.Object {
+	var res []*ast.Object
+	if fd == nil || fd.Type.Params == nil {
+		return res
+	}
+	for _, f := range fd.Type.Params.List {
+		for _, nm := range f.Names {
+			res = append(res, nm.Obj)
+		}
+	}
+	return res
+}
+
+// ccIsLister: ce calls a same-package function that lists a directory (its body calls Readdirnames / ReadDir),
+// or os.ReadDir directly.
+func ccIsLister(p *ccPkg, ce *ast.CallExpr, cur *ast.FuncDecl) bool {
+	if p.pkgCall(ce, "os", "ReadDir") {
+		return true
+	}
+	fd := p.callee(ce, cur)
+	if fd == nil || fd.Body == nil {
 		return false
 	}
-	// innermost loops: loops containing no other loop
-	var inner []*ast.RangeStmt
-	bad := false
-	ast.Inspect(visit.Body, func(x ast.Node) bool {
-		var b *ast.BlockStmt
-		switch l := x.(type) {
-		case *ast.RangeStmt:
-			b = l.Body
-		case *ast.ForStmt:
-			b = l.Body
-		default:
-			return true
-		}
-		nested := false
-		ast.Inspect(b, func(y ast.Node) bool {
-			switch y.(type) {
-			case *ast.RangeStmt, *ast.ForStmt:
-				nested = true
+	return ccHasMethodCall(fd.Body, "Readdirnames") || ccHasMethodCall(fd.Body, "ReadDir") || ccHasMethodCall(fd.Body, "Readdir")
+}
+
+// ccIsNotExist: e is os.IsNotExist(<err>) or errors.Is(<err>, os.ErrNotExist / fs.ErrNotExist).
+func ccIsNotExist(p *ccPkg, e ast.Expr, err *ast.Object) bool {
+	ce, ok := ccStrip(e).(*ast.CallExpr)
+	if !ok {
+		return false
+	}
+	if p.pkgCall(ce, "os", "IsNotExist") && len(ce.Args) == 1 && ccIsVar(ce.Args[0], err) {
+		return true
+	}
+	if p.pkgCall(ce, "errors", "Is") && len(ce.Args) == 2 && ccIsVar(ce.Args[0], err) {
+		if se, ok := ccStrip(ce.Args[1]).(*ast.SelectorExpr); ok && se.Sel.Name == "ErrNotExist" {
+			if id, ok := se.X.(*ast.Ident); ok && id.Obj == nil && (p.imports[id.Name] == "os" || p.imports[id.Name] == "io/fs") {
+				return true
 			}
-			return true
-		})
-		if !nested {
-			if rs, ok := x.(*ast.RangeStmt); ok {
-				inner = append(inner, rs)
+		}
+	}
+	return false
+}
+
+// fact 9
+func ccVisitENOENT(p *ccPkg, visit *ast.FuncDecl) string {
+	if visit == nil || visit.Body == nil {
+		return "unknown"
+	}
+	sites := ccScan(p, visit, visit.Body.List, 0)
+	class := map[int]string{}
+	n := 0
+	for _, s := range sites {
+		as, ok := s.n.(*ast.AssignStmt)
+		if !ok || len(as.Rhs) != 1 || len(as.Lhs) != 2 {
+			continue
+		}
+		ce, ok := ccStrip(as.Rhs[0]).(*ast.CallExpr)
+		if !ok || !ccIsLister(p, ce, visit) {
+			continue
+		}
+		n++
+		err := ccObjOf(as.Lhs[1])
+		level := s.c.loops()
+		if _, dup := class[level]; dup || err == nil || len(s.c.lits) > 0 {
+			return "unknown"
+		}
+		// what happens when the listing failed: the returns / continues that are only reached with err != nil,
+		// in the same loop body, before err is assigned again
+		var end []token.Pos
+		for _, t := range sites {
+			if t2, ok := t.n.(*ast.AssignStmt); ok && ccKeyLess(s.key, t.key) && end == nil {
+				for _, l := range t2.Lhs {
+					if ccIsVar(l, err) {
+						end = t.key
+					}
+				}
+			}
+		}
+		conts, retErr, others, usesNotExist := 0, 0, 0, false
+		for _, t := range sites {
+			if !ccKeyLess(s.key, t.key) || (end != nil && !ccKeyLess(t.key, end)) || t.c.loops() != level || len(t.c.encl) < len(s.c.encl) ||
+				len(t.c.conds) < len(s.c.conds) {
+				continue
+			}
+			failed, notExist, known := false, false, false
+			for _, cd := range t.c.conds[len(s.c.conds):] {
+				if x, isNil, ok := ccNilTest(cd); ok && ccIsVar(x, err) && !isNil {
+					failed = true
+				}
+				if ccIsNotExist(p, cd.e, err) {
+					notExist, known = cd.val, true
+				}
+			}
+			if !failed {
+				continue
+			}
+			if known {
+				usesNotExist = true
+			}
+			switch x := t.n.(type) {
+			case *ast.BranchStmt:
+				if x.Tok == token.CONTINUE && x.Label == nil && known && notExist {
+					conts++
+				} else {
+					others++
+				}
+			case *ast.ReturnStmt:
+				ok := len(x.Results) > 0 && ccIsVar(x.Results[len(x.Results)-1], err)
+				switch {
+				case ok && known && !notExist:
+					retErr++
+				case ok && !known:
+					retErr++
+				default:
+					others++
+				}
+			}
+		}
+		c := "unknown"
+		switch {
+		case others == 0 && conts == 1 && retErr == 1 && usesNotExist:
+			c = "tolerated"
+		case others == 0 && conts == 0 && retErr == 1 && !usesNotExist:
+			c = "fatal"
+		}
+		class[level] = c
+	}
+	if n != 3 || len(class) != 3 || class[0] != "fatal" {
+		return "unknown"
+	}
+	if class[1] != class[2] {
+		return "unknown"
+	}
+	return class[1]
+}
+
+// ccBucketLock: how the exported operation fd uses its mailbox lock: "W" / "R" = taken (write / read) before anything
+// touches the mailbox or the store, released by a defer, never released or retaken in between; "" otherwise.
+func ccBucketLock(p *ccPkg, fd *ast.FuncDecl) string {
+	recv := ccRecvObj(fd)
+	if recv == nil || fd.Body == nil {
+		return ""
+	}
+	sites := ccScan(p, fd, fd.Body.List, 0)
+	var lock, unlock *ccSite
+	var box *ast.Object
+	mode := ""
+	for i, s := range sites {
+		ce, ok := s.n.(*ast.CallExpr)
+		if !ok {
+			continue
+		}
+		for _, nm := range []string{"Lock", "RLock", "Unlock", "RUnlock"} {
+			x, ok := ccMethodCall(ce, nm)
+			if !ok || len(ce.Args) != 0 || ccObjOf(x) == nil {
+				continue
+			}
+			if nm == "Lock" || nm == "RLock" {
+				if lock != nil || len(s.c.encl) != 0 || s.c.deferred || s.c.inGo {
+					return ""
+				}
+				lock, box = &sites[i], ccObjOf(x)
+				mode = map[string]string{"Lock": "W", "RLock": "R"}[nm]
 			} else {
-				bad = true
+				if unlock != nil {
+					return ""
+				}
+				unlock = &sites[i]
+			}
+		}
+	}
+	if lock == nil || unlock == nil {
+		return ""
+	}
+	// the mailbox is built by a method of the store from the arguments
+	def, ok := ccStrip(ccDefRhs(box)).(*ast.CallExpr)
+	if !ok {
+		return ""
+	}
+	if se, ok := ccStrip(def.Fun).(*ast.SelectorExpr); !ok || !ccIsVar(se.X, recv) {
+		return ""
+	}
+	// deferred release of the same lock, registered right after it was taken
+	uce := unlock.n.(*ast.CallExpr)
+	want := map[string]string{"W": "Unlock", "R": "RUnlock"}[mode]
+	if x, ok := ccMethodCall(uce, want); !ok || !ccIsVar(x, box) || !unlock.c.deferred || unlock.c.inGo || len(unlock.c.conds) != len(lock.c.conds) ||
+		!ccKeyLess(lock.key, unlock.key) {
+		return ""
+	}
+	for _, e := range unlock.c.encl {
+		if _, isLit := e.(*ast.FuncLit); !isLit {
+			return ""
+		}
+	}
+	decl := box.Decl.(ast.Node)
+	for _, s := range sites {
+		// nothing mentions the mailbox or the store before the lock is held (apart from building the mailbox)
+		if id, ok := s.n.(*ast.Ident); ok && (id.Obj == box || id.Obj == recv) && ccKeyLess(s.key, lock.key) && !ccWithin(id, decl) {
+			return ""
+		}
+		// the mailbox variable is never rebound
+		if as, ok := s.n.(*ast.AssignStmt); ok && ast.Node(as) != decl {
+			for _, l := range as.Lhs {
+				if ccIsVar(l, box) {
+					return ""
+				}
+			}
+		}
+		// nothing between taking the lock and registering its release
+		if ccKeyLess(lock.key, s.key) && ccKeyLess(s.key, unlock.key) && !ccWithin(s.n, lock.n) {
+			if _, isDefer := s.n.(*ast.DeferStmt); !isDefer && !s.c.deferred {
+				return ""
+			}
+		}
+	}
+	return mode
+}
+
+// fact 10 (+ the lock modes)
+func ccFileLockedOps(p *ccPkg) ([]string, []string, bool) {
+	ops, modes := []string{}, []string{}
+	total := 0
+	for _, fd := range p.all {
+		if fd.Body == nil || !ast.IsExported(fd.Name.Name) || ccRecvType(fd) != "Store" || fd.Name.Name == "VisitMailboxes" {
+			continue
+		}
+		total++
+		if m := ccBucketLock(p, fd); m != "" {
+			ops = append(ops, fd.Name.Name)
+			modes = append(modes, fd.Name.Name+":"+m)
+		}
+	}
+	sort.Strings(ops)
+	sort.Strings(modes)
+	return ops, modes, total > 0 && len(ops) == total
+}
+
+// fact 11
+func ccVisitReadsLocked(p *ccPkg, visit *ast.FuncDecl) bool {
+	recv := ccRecvObj(visit)
+	if recv == nil || visit.Body == nil {
+		return false
+	}
+	var cb *ast.Object
+	for _, f := range visit.Type.Params.List {
+		if _, ok := f.Type.(*ast.FuncType); ok && len(f.Names) == 1 {
+			cb = f.Names[0].Obj
+		}
+	}
+	if cb == nil {
+		return false
+	}
+	sites := ccScan(p, visit, visit.Body.List, 0)
+	deepest := 0
+	for _, s := range sites {
+		if s.c.loops() > deepest {
+			deepest = s.c.loops()
+		}
+	}
+	var lock, unlock *ccSite
+	var box *ast.Object
+	want := ""
+	for i, s := range sites {
+		ce, ok := s.n.(*ast.CallExpr)
+		if !ok || len(ce.Args) != 0 {
+			continue
+		}
+		for _, nm := range []string{"Lock", "RLock", "Unlock", "RUnlock"} {
+			x, ok := ccMethodCall(ce, nm)
+			if !ok || ccObjOf(x) == nil {
+				continue
+			}
+			switch nm {
+			case "Lock", "RLock":
+				if lock != nil {
+					return false
+				}
+				lock, box = &sites[i], ccObjOf(x)
+				want = map[string]string{"Lock": "Unlock", "RLock": "RUnlock"}[nm]
+			default:
+				if unlock != nil || nm != want || !ccIsVar(x, box) {
+					return false
+				}
+				unlock = &sites[i]
+			}
+		}
+	}
+	if lock == nil || unlock == nil || deepest == 0 || lock.c.loops() != deepest {
+		return false
+	}
+	// same block, in order, neither deferred nor conditional on anything the lock is not
+	if lock.c.deferred || unlock.c.deferred || lock.c.inGo || unlock.c.inGo || len(lock.c.lits) > 0 || len(unlock.c.lits) > 0 ||
+		!ccKeyLess(lock.key, unlock.key) || len(lock.c.encl) != len(unlock.c.encl) || !ccSameConds(lock.c.conds, unlock.c.conds) {
+		return false
+	}
+	for i := range lock.c.encl {
+		if lock.c.encl[i] != unlock.c.encl[i] {
+			return false
+		}
+	}
+	// the mailbox is built by a method of the store inside the same loop body
+	def, ok := ccStrip(ccDefRhs(box)).(*ast.CallExpr)
+	if !ok {
+		return false
+	}
+	if se, ok := ccStrip(def.Fun).(*ast.SelectorExpr); !ok || !ccIsVar(se.X, recv) {
+		return false
+	}
+	reads, calls := 0, 0
+	for _, s := range sites {
+		ce, ok := s.n.(*ast.CallExpr)
+		if !ok {
+			continue
+		}
+		between := ccKeyLess(lock.key, s.key) && ccKeyLess(s.key, unlock.key)
+		if se, ok := ccStrip(ce.Fun).(*ast.SelectorExpr); ok && ccIsVar(se.X, box) && ce != lock.n && ce != unlock.n {
+			// every use of the mailbox is under its lock
+			if !between {
+				return false
+			}
+			reads++
+		}
+		if ccIsVar(ce.Fun, cb) {
+			// the callback runs without the lock
+			if between {
+				return false
+			}
+			calls++
+		}
+	}
+	return reads >= 1 && calls >= 1
+}
+
+// ccSlice03: e is <v>[0:3] or <v>[:3].
+func ccSlice03(e ast.Expr, v *ast.Object) bool {
+	se, ok := ccStrip(e).(*ast.SliceExpr)
+	return ok && ccIsVar(se.X, v) && (se.Low == nil || ccIntLit(se.Low, "0")) && se.High != nil && ccIntLit(se.High, "3") && se.Max == nil
+}
+
+func ccAssignCount(fd *ast.FuncDecl, o *ast.Object) int {
+	n := 0
+	ast.Inspect(fd.Body, func(x ast.Node) bool {
+		switch y := x.(type) {
+		case *ast.AssignStmt:
+			for _, l := range y.Lhs {
+				if ccIsVar(l, o) {
+					n++
+				}
+			}
+		case *ast.IncDecStmt:
+			if ccIsVar(y.X, o) {
+				n++
 			}
 		}
 		return true
 	})
-	if bad || len(inner) != 1 {
-		return false
-	}
-	l := inner[0].Body.List
-	iMb := ccIndex(l, func(s ast.Stmt) bool {
-		as, ok := s.(*ast.AssignStmt)
-		if !ok || as.Tok != token.DEFINE || len(as.Lhs) != 1 || len(as.Rhs) != 1 || src(as.Lhs[0]) != "mb" {
-			return false
-		}
-		ce, ok := as.Rhs[0].(*ast.CallExpr)
-		return ok && len(ce.Args) == 1 && (src(ce.Fun) == recv+".mboxFromHash" || src(ce.Fun) == recv+".mbox")
-	})
-	iLock := ccIndex(l, func(s ast.Stmt) bool { return ccIsExprStmt(s, "mb.RLock()") })
-	if iMb < 0 || iLock < iMb || iLock+2 >= len(l) {
-		return false
-	}
-	if !ccIsAssign(l[iLock+1], "msgs, err := mb.getMessages()") || !ccIsExprStmt(l[iLock+2], "mb.RUnlock()") {
-		return false
-	}
-	// getMessages is called nowhere else in the function
-	return len(ccCalls(visit.Body, "mb.getMessages")) == 1
+	return n
 }
 
 // fact 12
-func ccBucketIsLevel1(lock, fstore *ast.File) bool {
-	get := fn(lock, "HashLock", "Get")
-	if get == nil || get.Body == nil || !ccImports(lock, "strconv", "strconv") {
+func ccBucketIsLevel1(lockFile *ast.File, p *ccPkg) bool {
+	// HashLock is an array of 16^3 locks
+	sized := false
+	if lockFile != nil {
+		ast.Inspect(lockFile, func(x ast.Node) bool {
+			if ts, ok := x.(*ast.TypeSpec); ok && ts.Name.Name == "HashLock" {
+				if at, ok := ts.Type.(*ast.ArrayType); ok && at.Len != nil && ccIntLit(at.Len, "4096") {
+					sized = true
+				}
+			}
+			return true
+		})
+	}
+	get := fn(lockFile, "HashLock", "Get")
+	if !sized || get == nil || get.Body == nil || !ccImports(lockFile, "strconv", "strconv") {
 		return false
 	}
-	if get.Type.Params == nil || len(get.Type.Params.List) != 1 || len(get.Type.Params.List[0].Names) != 1 ||
-		get.Type.Params.List[0].Names[0].Name != "hash" {
+	ps := ccFuncParams(get)
+	if len(ps) != 1 || ps[0] == nil || ccAssignCount(get, ps[0]) != 0 {
 		return false
 	}
-	parses := ccCalls(get.Body, "strconv.ParseInt")
-	if len(parses) != 1 || src(parses[0]) != "strconv.ParseInt(hash[0:3], 16, 0)" {
-		return false
-	}
-	h := ccRecvName(get)
-	if ccIndex(get.Body.List, func(s ast.Stmt) bool { return ccIsAssign(s, "i, err := strconv.ParseInt(hash[0:3], 16, 0)") }) < 0 {
+	// the index is ParseInt(<param>[0:3], 16, ..) and the result is &<recv>[index]
+	var idx *ast.Object
+	parses := 0
+	ast.Inspect(get.Body, func(x ast.Node) bool {
+		as, ok := x.(*ast.AssignStmt)
+		if ok && len(as.Rhs) == 1 && len(as.Lhs) == 2 {
+			if ce, ok := ccStrip(as.Rhs[0]).(*ast.CallExpr); ok {
+				if fx, ok := ccMethodCall(ce, "ParseInt"); ok && src(fx) == "strconv" && ccObjOf(fx) == nil {
+					parses++
+					if len(ce.Args) == 3 && ccSlice03(ce.Args[0], ps[0]) && ccIntLit(ce.Args[1], "16") {
+						idx = ccObjOf(as.Lhs[0])
+					}
+				}
+			}
+		}
+		return true
+	})
+	if parses != 1 || idx == nil || ccAssignCount(get, idx) != 1 {
 		return false
 	}
 	retOK := false
-	for _, s := range get.Body.List {
-		if rs, ok := s.(*ast.ReturnStmt); ok && len(rs.Results) == 1 && src(rs.Results[0]) == "&"+h+"[i]" {
-			retOK = true
+	ast.Inspect(get.Body, func(x ast.Node) bool {
+		if rs, ok := x.(*ast.ReturnStmt); ok && len(rs.Results) == 1 {
+			if u, ok := ccStrip(rs.Results[0]).(*ast.UnaryExpr); ok && u.Op == token.AND {
+				if ix, ok := ccStrip(u.X).(*ast.IndexExpr); ok && ccIsVar(ix.X, ccRecvObj(get)) && ccIsVar(ix.Index, idx) {
+					retOK = true
+				}
+			}
 		}
-	}
+		return true
+	})
 	if !retOK {
 		return false
 	}
 
-	mbox := fn(fstore, "Store", "mbox")
-	recv := ccRecvName(mbox)
-	if recv == "" || mbox.Body == nil || !ccImports(fstore, "path/filepath", "filepath") {
-		return false
-	}
-	l := mbox.Body.List
-	if ccIndex(l, func(s ast.Stmt) bool { return ccIsAssign(s, "s1 := hash[0:3]") }) < 0 {
-		return false
-	}
-	// s1 and hash are bound exactly once
-	binds := map[string]int{}
-	ast.Inspect(mbox.Body, func(x ast.Node) bool {
-		if as, ok := x.(*ast.AssignStmt); ok {
-			for _, lhs := range as.Lhs {
-				binds[src(lhs)]++
+	// the field of file.Store of type storage.HashLock
+	lockField := ""
+	for _, f := range p.files {
+		ast.Inspect(f, func(x ast.Node) bool {
+			ts, ok := x.(*ast.TypeSpec)
+			if !ok || ts.Name.Name != "Store" {
+				return true
 			}
+			if st, ok := ts.Type.(*ast.StructType); ok {
+				for _, fl := range st.Fields.List {
+					if se, ok := fl.Type.(*ast.SelectorExpr); ok && se.Sel.Name == "HashLock" && len(fl.Names) == 1 {
+						lockField = fl.Names[0].Name
+					}
+				}
+			}
+			return true
+		})
+	}
+	if lockField == "" {
+		return false
+	}
+	// every function that asks that field for a lock builds the mailbox directory as Join(<root>, h[0:3], .., h)
+	// from the same h, and that path goes into the mailbox it returns
+	users := 0
+	for _, fd := range p.all {
+		if fd.Body == nil {
+			continue
 		}
-		return true
-	})
-	if binds["s1"] != 1 || binds["hash"] != 1 {
-		return false
+		var gets []*ast.CallExpr
+		ast.Inspect(fd.Body, func(x ast.Node) bool {
+			if ce, ok := x.(*ast.CallExpr); ok {
+				if fx, ok := ccMethodCall(ce, "Get"); ok {
+					if se, ok := ccStrip(fx).(*ast.SelectorExpr); ok && se.Sel.Name == lockField {
+						gets = append(gets, ce)
+					}
+				}
+			}
+			return true
+		})
+		if len(gets) == 0 {
+			continue
+		}
+		if len(gets) != 1 || len(gets[0].Args) != 1 || ccRecvObj(fd) == nil {
+			return false
+		}
+		h := ccObjOf(gets[0].Args[0])
+		if h == nil {
+			return false
+		}
+		isParam := false
+		for _, po := range ccFuncParams(fd) {
+			isParam = isParam || po == h
+		}
+		if n := ccAssignCount(fd, h); (isParam && n != 0) || (!isParam && n != 1) {
+			return false
+		}
+		joined := false
+		ast.Inspect(fd.Body, func(x ast.Node) bool {
+			as, ok := x.(*ast.AssignStmt)
+			if !ok || len(as.Lhs) != 1 || len(as.Rhs) != 1 {
+				return true
+			}
+			ce, ok := ccStrip(as.Rhs[0]).(*ast.CallExpr)
+			if !ok || !p.pkgCall(ce, "path/filepath", "Join") || len(ce.Args) < 3 || !ccIsVar(ce.Args[len(ce.Args)-1], h) {
+				return true
+			}
+			if se, ok := ccStrip(ce.Args[0]).(*ast.SelectorExpr); !ok || !ccIsVar(se.X, ccRecvObj(fd)) {
+				return true
+			}
+			a := ce.Args[1]
+			if o := ccObjOf(a); o != nil {
+				if ccAssignCount(fd, o) != 1 || ccDefRhs(o) == nil {
+					return true
+				}
+				a = ccDefRhs(o)
+			}
+			if !ccSlice03(a, h) {
+				return true
+			}
+			// the joined path is a value of the composite literal that is returned
+			d := ccObjOf(as.Lhs[0])
+			if d == nil || ccAssignCount(fd, d) != 1 {
+				return true
+			}
+			ast.Inspect(fd.Body, func(y ast.Node) bool {
+				if rs, ok := y.(*ast.ReturnStmt); ok {
+					ast.Inspect(rs, func(z ast.Node) bool {
+						if kv, ok := z.(*ast.KeyValueExpr); ok && ccIsVar(kv.Value, d) {
+							joined = true
+						}
+						return true
+					})
+				}
+				return true
+			})
+			return true
+		})
+		if !joined {
+			return false
+		}
+		users++
 	}
-	joins := ccCallsSrc(mbox.Body, "filepath.Join("+recv+".mailPath, s1, s2, hash)")
-	if len(joins) != 1 {
-		return false
-	}
-	if ccIndex(l, func(s ast.Stmt) bool { return ccIsAssign(s, "path := filepath.Join("+recv+".mailPath, s1, s2, hash)") }) < 0 {
-		return false
-	}
-	// the lock of the mailbox is the bucket of the same hash
-	return len(ccCallsSrc(mbox.Body, recv+".hashLock.Get(hash)")) == 1
+	return users >= 1
 }
